@@ -2,10 +2,25 @@
 """Translator: regenerates /verif/lean/ReplicatModel/Generated.lean from /repo's CURRENT working tree.
 
 Everything the Lean theorems depend on that is a constant, a table or a small guard expression of the
-implementation is read here from the source text (Python `ast`, anchored regexes for src/adapters.cpp) and
-emitted as Lean definitions in namespace `Replicat.Gen`.  The model files call these definitions and the
-theorems are proved about whatever they currently say, so an edit to /repo that changes one of them is
-re-checked by the Lean kernel on the next run.
+implementation is read here from the source and emitted as Lean definitions in namespace `Replicat.Gen`.
+The model files call these definitions and the theorems are proved about whatever they currently say, so
+an edit to /repo that changes one of them is re-checked by the Lean kernel on the next run.
+
+The recognisers of this file are SEMANTIC, not textual: a behaviour-preserving rewrite of the source must
+leave every fact as it is (a fact that flips without a behaviour change is a false alarm of the framework).
+
+* Python (`replicat/repository.py`): the methods are executed symbolically, path by path (tools/pyflow.py):
+  locals are resolved through their assignments, helper calls (methods through `self`, nested functions,
+  module-level functions) are followed, `if/else`, early `return`/`continue`, conditional expressions and
+  `try/except/else` all become literals on a path, loops become the paths of one iteration.  A fact is a
+  query over those paths ("every finalisation truncates the file to SIZES[path] before the metadata is
+  restored", "the cached bytes are not used on a path that does not know hash(bytes) == expected", …),
+  never a comparison of statement text or of the names of locals / private helpers.
+* C++ (`src/adapters.cpp`): `next_cut` is parsed into statements and turned into a decision tree
+  (tools/cexpr.py); the guard functions of the model (`isTail`, `tailCut`, `waits`, …) are read off the tree,
+  whatever nesting of `if`/`else`/early returns/`?:`/helper functions produced it.
+* What is really gone comes out `false` / `opaque`; a shape the analysis does not understand also comes out
+  `false` / `opaque` (never a guessed `true`).
 
 Anything that cannot be recognised/translated is emitted as an `opaque` constant together with
 `Gen.<section>Recognised := false`; the dependent bridge lemmas then fail to compile, which the check
@@ -24,11 +39,15 @@ from fractions import Fraction
 from pathlib import Path
 
 sys.path.insert(0, str(Path(__file__).resolve().parent))
-from cexpr import translate, Untranslatable  # noqa: E402
+from cexpr import translate, Untranslatable, analyse_next_cut, analyse_key, analyse_ctor  # noqa: E402
 
 REPO = Path(os.environ.get('REPLICAT_REPO', '/repo'))
 OUT = Path(__file__).resolve().parent.parent / 'lean' / 'ReplicatModel' / 'Generated.lean'
 SIDE = Path(__file__).resolve().parent.parent / '.work' / 'extract.json'
+if os.environ.get('REPLICAT_GEN_OUT'):
+    # dry run (comparing what would be generated for another checkout): nothing of the framework is touched
+    OUT = Path(os.environ['REPLICAT_GEN_OUT'])
+    SIDE = OUT.with_suffix('.json')
 
 lines = []
 notes = {}
@@ -37,6 +56,39 @@ fingerprints = {}
 
 def emit(s=''):
     lines.append(s)
+
+
+def const_eval(node, env=None):
+    return F.const_eval(node, env)
+
+
+def class_consts(cls_node, env=None):
+    """{name: value} of the constant class attributes (each may use the earlier ones / module constants)"""
+    vals = dict(env or {})
+    out = {}
+    for st in cls_node.body:
+        tgt = None
+        if isinstance(st, ast.Assign) and len(st.targets) == 1 and isinstance(st.targets[0], ast.Name):
+            tgt, val = st.targets[0].id, st.value
+        elif isinstance(st, ast.AnnAssign) and isinstance(st.target, ast.Name) and st.value is not None:
+            tgt, val = st.target.id, st.value
+        if tgt is not None:
+            try:
+                out[tgt] = vals[tgt] = const_eval(val, vals)
+            except Exception:  # noqa: BLE001
+                pass
+    return out
+
+
+def module_consts(tree):
+    vals = {}
+    for st in tree.body:
+        if isinstance(st, ast.Assign) and len(st.targets) == 1 and isinstance(st.targets[0], ast.Name):
+            try:
+                vals[st.targets[0].id] = const_eval(st.value, vals)
+            except Exception:  # noqa: BLE001
+                pass
+    return vals
 
 
 def strip_c_comments(s):
@@ -54,60 +106,40 @@ def chunker_section():
     src = (REPO / 'src' / 'adapters.cpp').read_text()
     fingerprints['src/adapters.cpp'] = hashlib.sha256(norm_ws(strip_c_comments(src)).encode()).hexdigest()[:16]
     body = norm_ws(strip_c_comments(src))
-    names = {
-        'size': ('size', 'nat'), 'max_length': ('max', 'nat'), 'min_length': ('min', 'nat'),
-        'final': ('final', 'bool'), 'i': ('i', 'nat'), 'k': ('k', 'nat'), 'max_value': ('best', 'nat'),
-        'max_index': ('mi', 'nat'),
-    }
-    pat = re.compile(
-        r'size_t gclmulchunker::next_cut\(const py::buffer& buffer, bool final = false\) \{ '
-        r'const py::buffer_info& info = buffer\.request\(\); '
-        r'size_t i, max_index = (?P<mi0>\d+), size = info\.size; '
-        r'uint64_t max_value = (?P<mv0>\d+); '
-        r'const char\* buffer_data = static_cast<char\*>\(info\.ptr\); '
-        r'if \((?P<tailcond>[^{}]*?)\) \{ '
-        r'if \((?P<c1>[^{}]*?)\) return (?P<r1>[^;]*?); '
-        r'else if \((?P<c2>[^{}]*?)\) return (?P<r2>[^;]*?); '
-        r'else return (?P<r3>[^;]*?); '
-        r'\} else if \((?P<waitcond>[^{}]*?)\) return (?P<waitret>[^;]*?); '
-        r'for \(i = (?P<start>\d+); (?P<loopcond>[^;]*?); i \+= (?P<stride>\d+)\) \{ '
-        r'if \(auto k = key\(buffer_data, i\); (?P<better>[^{}]*?)\) \{ max_index = i; max_value = k; \} \} '
-        r'if \((?P<forcecond>[^{}]*?)\) max_index = (?P<forceval>[^;]*?); '
-        r'return max_index; \}')
-    keypat = re.compile(
-        r'uint64_t gclmulchunker::key\(const char\* buffer, size_t offset\) \{ '
-        r'__m128i u = params, v = _mm_loadu_si64\(&buffer\[offset - (?P<back>\d+)\]\); '
-        r'v = _mm_clmulepi64_si128\(u, v, 0\); '
-        r'u = _mm_clmulepi64_si128\(u, v, 0b00010001\); '
-        r'return _mm_extract_epi64\(_mm_xor_si128\(_mm_xor_si128\(k1, u\), v\), 0\); \}')
-    ctorpat = re.compile(r'params = _mm_set_epi64x\((?P<red>\d+), k0\);')
-    m, km, cm = pat.search(body), keypat.search(body), ctorpat.search(body)
+    # the constant of the reduction step: params = _mm_set_epi64x(<constant>, k0)
+    ctorpat = re.compile(r'params\s*=\s*_mm_set_epi64x\(\s*(?P<red>0[xX][0-9a-fA-F]+|\d+)\s*,\s*k0\s*\)\s*;')
+    cm = ctorpat.search(body)
     emit('/-! ## chunker: translated from src/adapters.cpp (gclmulchunker::next_cut / key) -/')
     ok = True
     defs = {}
-    if m:
-        try:
-            defs['isTail'] = translate(m['tailcond'], names, 'bool')
-            c1 = translate(m['c1'], names, 'bool')
-            c2 = translate(m['c2'], names, 'bool')
-            r1 = translate(m['r1'], names, 'nat')
-            r2 = translate(m['r2'], names, 'nat')
-            r3 = translate(m['r3'], names, 'nat')
-            defs['tailCut'] = f'if {c1} then {r1} else if {c2} then {r2} else {r3}'
-            defs['waits'] = translate(m['waitcond'], names, 'bool')
-            defs['waitRet'] = translate(m['waitret'], names, 'nat')
-            defs['scanContinue'] = translate(m['loopcond'], names, 'bool')
-            defs['better'] = translate(m['better'], names, 'bool')
-            defs['needForce'] = translate(m['forcecond'], names, 'bool')
-            defs['forced'] = translate(m['forceval'], names, 'nat')
-        except Untranslatable as e:
-            notes['chunker'] = f'untranslatable: {e}'
-            ok = False
-    else:
-        notes['chunker'] = 'next_cut: structure not recognised'
+    m = {}
+    try:
+        # control flow of next_cut → guard functions, by path enumeration (cexpr.analyse_next_cut)
+        defs = analyse_next_cut(src)
+        m = {'start': defs['scanStart'], 'stride': defs['scanStride'], 'mi0': defs['scanInitIndex'], 'mv0': defs['scanInitValue']}
+    except (Untranslatable, RecursionError, IndexError, KeyError, TypeError, ValueError, AttributeError) as e:
+        notes['chunker'] = f'next_cut not recognised: {e}'
         ok = False
-    if not (km and cm):
-        notes['chunker_key'] = 'key()/constructor: structure not recognised'
+        defs = {}
+    km = None
+    try:
+        km = analyse_key(src, defs.get('keyFunction', 'key'))
+    except (Untranslatable, RecursionError, IndexError, KeyError, TypeError, ValueError, AttributeError) as e:
+        km = None
+        notes['chunker_key'] = f'key()/constructor: structure not recognised: {e}'
+    red = None
+    try:
+        if km:
+            red = analyse_ctor(src, km['params'], km['k1'])
+    except (Untranslatable, RecursionError, IndexError, KeyError, TypeError, ValueError, AttributeError) as e:
+        if str(e).startswith('parse:'):
+            notes['chunker_ctor'] = f'constructor not parsed ({e}); falling back to the textual form'
+            red = int(cm['red'], 0) if cm else None
+        else:
+            notes['chunker_ctor'] = f'constructor: {e}'
+    cm = {'red': str(red)} if red is not None else None
+    if not cm:
+        notes['chunker_key'] = 'constructor: reduction constant not recognised'
     emit(f'def chunkerRecognised : Bool := {"true" if ok else "false"}')
     emit(f'def keyRecognised : Bool := {"true" if (km and cm) else "false"}')
     if ok:
@@ -133,7 +165,7 @@ def chunker_section():
     if km and cm:
         emit(f'def windowBack : Nat := {km["back"]}')
         emit('def windowLen : Nat := 8   -- _mm_loadu_si64')
-        emit(f'def reductionConst : Nat := {cm["red"]}')
+        emit(f'def reductionConst : Nat := {int(cm["red"], 0)}')
     else:
         emit('opaque windowBack : Nat')
         emit('opaque windowLen : Nat')
@@ -145,12 +177,7 @@ def chunker_section():
     vals = {}
     for node in ast.walk(tree):
         if isinstance(node, ast.ClassDef) and node.name == 'gclmulchunker':
-            for st in node.body:
-                if isinstance(st, ast.Assign) and len(st.targets) == 1 and isinstance(st.targets[0], ast.Name):
-                    try:
-                        vals[st.targets[0].id] = ast.literal_eval(st.value)
-                    except Exception:
-                        pass
+            vals = class_consts(node, module_consts(tree))
             fingerprints['adapters.gclmulchunker'] = hashlib.sha256(ast.dump(node).encode()).hexdigest()[:16]
     for nm, lean in [('alignment', 'align'), ('MIN_LENGTH', 'defaultMin'), ('MAX_LENGTH', 'defaultMax')]:
         if isinstance(vals.get(nm), int):
@@ -193,19 +220,1551 @@ def unparse(node):
     return ast.unparse(node)
 
 
+# ------------------------------------------------------------------ flow-based recognisers (semantic, see pyflow.py)
+import pyflow as F  # noqa: E402
+
+UNWRAP_ITER = ('list', 'tuple', 'iter', 'reversed', 'sorted', 'set', 'frozenset')
+
+
+class Flow:
+    """lazily computed symbolic paths of replicat/repository.py (cached per run)"""
+    def __init__(self, path, cls='Repository'):
+        self.mod = F.Module(str(path))
+        self.cls = cls
+        self._top = {}
+        self._nested = {}
+
+    def method(self, name):
+        return self.mod.method(self.cls, name)
+
+    def top(self, name):
+        if name not in self._top:
+            node = self.method(name)
+            if node is None:
+                raise F.Unsupported(f'no method {name}')
+            self._top[name] = self.mod.run(node, self.cls)
+        return self._top[name]
+
+    def nested(self, state, node):
+        key = (id(state), id(node))
+        if key not in self._nested:
+            self._nested[key] = self.mod.run(node, self.cls, closure=state)
+        return self._nested[key]
+
+    def units_below(self, state, seen=None, depth=0, every=False, within=None):
+        """(node, paths) of the functions that run on their own below this path: those handed on as callbacks (the ones only
+        called directly were followed at their call sites), recursively; `every` = all functions defined on it instead"""
+        seen = set() if seen is None else seen
+        if every:
+            cands = {id(node): node for _n, node, _s in F.nested_funcs(state)}
+        else:
+            cands = F.escaping_funcs(within if within is not None else [state])
+        for key, node in cands.items():
+            if key in seen or depth > 3 or F.FUNCS[key][1] is not None:
+                continue
+            seen.add(key)
+            paths = self.nested(state, node)
+            yield node, paths
+            rs = [q for q in paths if q.status == 'return'] or paths
+            if every:
+                yield from self.units_below(rs[0], seen, depth + 1, True)
+            else:
+                yield from self.units_below(rs[0], seen, depth + 1, False, paths)
+
+
+def returns(paths):
+    return [p for p in paths if p.status == 'return']
+
+
+def representatives(paths):
+    """one path per closure signature (what nested functions see), for queries that only look below the top level"""
+    seen, out = set(), []
+    for p in paths:
+        sig = F.closure_signature(p)
+        if sig not in seen:
+            seen.add(sig)
+            out.append(p)
+    return out
+
+
+def walk(events, chain=()):
+    """(event, chain, index, events) over a path and, recursively, the iteration paths of its loops"""
+    for i, e in enumerate(events):
+        yield e, chain, i, events
+        if e.kind == 'loop':
+            for q in e.a.paths:
+                yield from walk(q.events, chain + ((e.a, q),))
+
+
+def call_parts(e):
+    """(func, args, kwargs dict) of a call event (stripped of evaluation identities)"""
+    if e.kind != 'call' or e.a[0] != 'call':
+        return None
+    return F.strip(e.a[2]), e.a[3], dict(e.a[4])
+
+
+def func_name(f):
+    """last component of the callee: os.truncate → 'truncate', self.restore_metadata → 'restore_metadata'"""
+    if f[0] in ('attr',):
+        return f[2]
+    if f[0] == 'method':
+        return f[2]
+    if f[0] == 'name':
+        return f[1]
+    if f[0] == 'func' and f[1] in F.FUNCS:
+        return F.FUNCS[f[1]][0].name
+    return None
+
+
+def unwrap_iter(x):
+    """the collection actually iterated: list(X) / sorted(X) / reversed(X) / X[:] → X"""
+    while True:
+        if x[0] == 'call' and x[2][0] == 'name' and x[2][1] in UNWRAP_ITER and len(x[3]) == 1 and not x[4]:
+            x = x[3][0]
+        elif x[0] == 'sub' and x[2][0] == 'slice' and all(F.is_const(a) and a[1] is None for a in x[2][1:]):
+            x = x[1]
+        else:
+            return x
+
+
+def dict_items(v):
+    """{'key': sym} of a dict display with constant string keys, else None"""
+    if v[0] != 'dict':
+        return None
+    out = {}
+    for k, val in v[2]:
+        if not (k[0] == 'const' and isinstance(k[1], str)):
+            return None
+        out[k[1]] = val
+    return out
+
+
+def emptiness(lits, xs):
+    """True / False / None: the path knows that (one of) the collections `xs` is empty / non-empty / neither"""
+    sx = [F.strip(x) for x in xs]
+    for l, pol in lits:
+        c, p = F.canon_lit(l, pol)
+        if c in sx:
+            return not p
+        if c[0] == 'cmp' and c[1] in ('==', '<'):
+            a, b = c[2], c[3]
+
+            def is_len(t):
+                return t[0] == 'call' and t[2] == ('name', 'len') and len(t[3]) == 1 and t[3][0] in sx
+            if c[1] == '==' and ((is_len(a) and F.is_const(b, 0)) or (is_len(b) and F.is_const(a, 0))):
+                return p
+            if c[1] == '<' and F.is_const(a, 0) and is_len(b):       # 0 < len(x)
+                return not p
+            if c[1] == '<' and is_len(a) and F.is_const(b, 1):       # len(x) < 1
+                return p
+    return None
+
+
+# ---- restore: the write plan
+def _part_loop_var(L):
+    """name of a carried variable of loop L that adds up `end - start` of each element's 'range' from 0, or None"""
+    vs = _part_loop_vars(L)
+    return vs[0] if vs else None
+
+
+def _counts_iterations(L, key):
+    """the carried variable is 0 before the loop and a 1-based enumerate index inside: it is falsy exactly when there was no iteration"""
+    if not F.is_const(L.init.get(key), 0):
+        return False
+    nexts = L.next_of(key)
+    return bool(nexts) and all(v is not None and v[0] == 'enumidx' and type(v[2]) is int and v[2] >= 1 for v in nexts)
+
+
+def _part_loop_vars(L):
+    """the carried variables of loop L that add up `end - start` of each element's 'range' from 0"""
+    out = []
+    if L.kind != 'for':
+        return out
+    for n in L.carried:
+        if not F.is_const(L.init.get(n), 0):
+            continue
+        nexts = L.next_of(n)
+        if not nexts:
+            continue
+        ok = True
+        for v in nexts:
+            v = F.strip(v)
+            if not (v[0] == 'bin' and v[1] == '+' and ('phi', L.uid, n) in (v[2], v[3])):
+                ok = False
+                break
+            sz = v[3] if v[2] == ('phi', L.uid, n) else v[2]
+            cap = F.match(sz, ('bin', '-', ('item', F.Cap('r'), 1), ('item', F.Cap('r'), 0)))
+            if cap is None:
+                ok = False
+                break
+            r = cap['r']
+            if not (r[0] == 'sub' and r[2] == ('const', 'range') and r[1] in (('elem', L.uid), ('item', ('elem', L.uid), 1))):
+                ok = False
+                break
+        if ok:
+            out.append(n)
+    return out
+
+
+def _by_counter_key(k):
+    try:
+        return key_body(None, k) == ('sub', ('bound', 0, 0), ('const', 'counter'))
+    except F.Unsupported:
+        return False
+
+
+def _sorted_by_counter(it, before):
+    """`it` enumerates X['chunks'] in increasing 'counter': sorted(X['chunks'], key=…) or a list sorted in place before"""
+    x = it
+    if x[0] == 'call' and x[2] == ('name', 'enumerate') and len(x[3]) >= 1:
+        x = x[3][0]
+    if x[0] == 'call' and x[2] == ('name', 'sorted') and len(x[3]) == 1:
+        kw = dict(x[4])
+        src = F.strip(unwrap_iter(x[3][0]))
+        if set(kw) <= {'key', 'reverse'} and 'key' in kw and _by_counter_key(kw['key']) \
+                and ('reverse' not in kw or F.is_const(kw['reverse'], False)) \
+                and src[0] == 'sub' and src[2] == ('const', 'chunks'):
+            return True
+        return False
+    # in-place: X = list(fd['chunks']) … X.sort(key=…) … for … in X
+    uid = F.sym_uid(x)
+    if uid is None:
+        return False
+    src = F.strip(unwrap_iter(x))
+    if not (src[0] == 'sub' and src[2] == ('const', 'chunks')):
+        return False
+    sorts = [e for e in before if e.kind == 'call' and e.a[0] == 'call' and e.a[2][0] == 'attr' and e.a[2][2] == 'sort'
+             and F.sym_uid(e.a[2][1]) == uid]
+    if len(sorts) != 1:
+        return False
+    kw = dict(sorts[0].a[4])
+    return set(kw) <= {'key', 'reverse'} and 'key' in kw and _by_counter_key(kw['key']) and not sorts[0].a[3] \
+        and ('reverse' not in kw or F.is_const(kw['reverse'], False))
+
+
+def restore_plan(path):
+    """what the plan-building part of one top-level path of `restore` does; None = no recognisable plan loop.
+    {'ordered': bool, 'sizes': dict uid or None, 'chunkless': list uid or None}"""
+    res = {'ordered': True, 'sizes': 'unset', 'chunkless': 'unset', 'n': 0}
+    per_file = {}
+    for e, chain, i, events in walk(path.events):
+        if e.kind != 'loop':
+            continue
+        L = e.a
+        pvars = _part_loop_vars(L)
+        if not pvars:
+            continue
+        res['n'] += 1
+        if not _sorted_by_counter(L.iter, events[:i]):
+            res['ordered'] = False
+        # the per-file part of the path: the rest of the iteration of the enclosing loop (or of the function)
+        after = events[i + 1:]
+        lits = [(x.a, x.b) for x in events if x.kind == 'cond']
+        # final length: SIZES[file path] = the accumulated offset
+        stores = [x for x in after if x.kind == 'store' and F.strip(x.b) in [('loopout', L.uid, v) for v in pvars]
+                  and x.a[0] == 'sub' and F.sym_uid(x.a[1]) is not None]
+        keyed = [x for x in stores if F.strip(x.a[2])[0] == 'sub' and F.strip(x.a[2])[2] == ('const', 'path')]
+        sz = F.sym_uid(keyed[0].a[1]) if len(keyed) == 1 else None
+        if res['sizes'] == 'unset':
+            res['sizes'] = sz
+            res['sizes_key'] = F.strip(keyed[0].a[2]) if sz is not None else None
+        elif res['sizes'] != sz:
+            res['sizes'] = None
+        # chunkless: when there is nothing to iterate, the file path is remembered in a list
+        src = unwrap_iter(L.iter[3][0]) if (L.iter[0] == 'call' and L.iter[3]) else L.iter
+        emp = emptiness(lits, [L.iter, src])
+        if emp is None:
+            # counted instead: `for n, x in enumerate(…, start=1)` with n = 0 before; `not n` afterwards means no iteration
+            for l, pol in lits:
+                c, pp = F.canon_lit(l, pol)
+                if c[0] == 'loopout' and c[1] == L.uid and _counts_iterations(L, c[2]):
+                    emp = not pp
+                if c[0] == 'cmp' and c[1] == '==' and ('const', 0) in (c[2], c[3]):
+                    o = c[3] if c[2] == ('const', 0) else c[2]
+                    if o[0] == 'loopout' and o[1] == L.uid and _counts_iterations(L, o[2]):
+                        emp = pp
+        apps = [x for x in events if x.kind == 'call' and x.a[0] == 'call' and x.a[2][0] == 'attr' and x.a[2][2] in ('append', 'add')
+                and x.a[2][1][0] in ('list', 'set') and not x.a[2][1][2]
+                and len(x.a[3]) == 1 and F.strip(x.a[3][0])[0] == 'sub' and F.strip(x.a[3][0])[2] == ('const', 'path')]
+        if emp is True and len(apps) == 1:
+            cl = F.sym_uid(apps[0].a[2][1])
+            if res['chunkless'] in ('unset', cl):
+                res['chunkless'] = cl
+            else:
+                res['chunkless'] = None
+        elif emp is False and not apps:
+            pass
+        else:
+            res['chunkless'] = None
+        if chain:
+            per_file[chain[-1][0].uid] = chain[-1][0]
+    # iterations of the per-file loop that register a file but never reach the loop over its parts (a guard clause for the
+    # files without chunks): they must be the ones that know there are no parts, and remember the path
+    for PF in per_file.values():
+        for q in PF.paths:
+            if any(x.kind == 'loop' and _part_loop_var(x.a) is not None for x in q.events):
+                continue
+            registers = any(x.kind == 'store' and F.contains(F.strip(x.b), lambda t: t[0] == 'sub' and t[2] == ('const', 'metadata'))
+                            for x in q.events)
+            if not registers:
+                continue
+            lits = q.lits()
+            xs = [t for l, _p in lits for t in F.subterms(l)
+                  if (lambda u: u[0] == 'sub' and u[2] == ('const', 'chunks'))(F.strip(unwrap_iter(t[3][0] if (t[0] == 'call' and t[2] == ('name', 'sorted') and t[3]) else t)))]
+            apps = [x for x in q.events if x.kind == 'call' and x.a[0] == 'call' and x.a[2][0] == 'attr' and x.a[2][2] in ('append', 'add')
+                    and x.a[2][1][0] in ('list', 'set') and not x.a[2][1][2]
+                    and len(x.a[3]) == 1 and F.strip(x.a[3][0])[0] == 'sub' and F.strip(x.a[3][0])[2] == ('const', 'path')]
+            if emptiness(lits, xs) is True and len(apps) == 1 and res['chunkless'] in ('unset', F.sym_uid(apps[0].a[2][1])):
+                res['chunkless'] = F.sym_uid(apps[0].a[2][1])
+            else:
+                res['chunkless'] = None
+    return res if res['n'] else None
+
+
+def _meta_pair(x):
+    """x = D.pop(K) / D[K] / D.get(K) for a dict object D: (uid of D, stripped K) else None"""
+    if x[0] == 'call' and x[2][0] == 'attr' and x[2][2] in ('pop', 'get') and len(x[3]) >= 1 and F.sym_uid(x[2][1]) is not None:
+        return F.sym_uid(x[2][1]), F.strip(x[3][0])
+    if x[0] == 'sub' and F.sym_uid(x[1]) is not None:
+        return F.sym_uid(x[1]), F.strip(x[2])
+    return None
+
+
+def _finalisations(events):
+    """(index, P, M) of the calls `…restore_metadata(P, M)` among the events (inlined or not)"""
+    out = []
+    for i, e in enumerate(events):
+        cp = call_parts(e)
+        if cp is not None and func_name(cp[0]) == 'restore_metadata' and len(cp[1]) == 2:
+            out.append((i, cp[1][0], cp[1][1]))
+    return out
+
+
+def _truncations(events, P):
+    """(index, size sym) of the events that set the length of the file at path P: os.truncate(P, n) / os.ftruncate /
+    <file opened from P>.truncate(n)"""
+    out = []
+    for i, e in enumerate(events):
+        cp = call_parts(e)
+        if cp is None:
+            continue
+        f, args, _kw = cp
+        if func_name(f) in ('truncate', 'ftruncate'):
+            if f[0] == 'attr' and f[1] in (('name', 'os'),) and len(args) == 2 and F.mentions(args[0], P):
+                out.append((i, args[1]))
+            elif f[0] == 'attr' and f[1] != ('name', 'os') and len(args) == 1 and F.mentions(e.a[2][1], P):
+                out.append((i, args[0]))
+    return out
+
+
+def restore_final_length(flow, path, plan):
+    """every finalisation in the loader functions of this path truncates the file to SIZES[file path] first"""
+    if plan is None or plan.get('sizes') in (None, 'unset'):
+        return False
+    seen = 0
+    for node, paths in flow.units_below(path):
+        for q in paths:
+            for e, chain, i, events in walk(q.events):
+                if e.kind != 'call':
+                    continue
+                cp = call_parts(e)
+                if cp is None or func_name(cp[0]) != 'restore_metadata' or len(cp[1]) != 2:
+                    continue
+                P = cp[1][0]
+                base = P[1] if P[0] == 'item' else None
+                mp = _meta_pair(base) if base is not None else None
+                if mp is None:
+                    return False
+                trs = [(j, s) for j, s in _truncations(events[:i], P)]
+                good = [j for j, s in trs if s[0] == 'sub' and F.sym_uid(s[1]) == plan['sizes'] and F.strip(s[2]) == mp[1]]
+                if not good:
+                    return False
+                # nothing changes the length after the final truncation (a later truncate to something else)
+                if any(j > good[-1] for j, s in trs if j not in good):
+                    return False
+                seen += 1
+    return seen > 0
+
+
+def restore_chunkless(path, plan):
+    """the files remembered as chunkless are created, set to length 0 and given their metadata at the top level"""
+    if plan is None or plan.get('chunkless') in (None, 'unset'):
+        return False
+    loops = [e.a for e in path.events if e.kind == 'loop' and e.a.kind == 'for'
+             and F.sym_uid(unwrap_iter(e.a.iter)) == plan['chunkless']]
+    if len(loops) != 1:
+        return False
+    L = loops[0]
+    its = [q for q in L.paths if q.status in ('run', 'continue')]
+    if not its or any(q.status not in ('run', 'continue') for q in L.paths):
+        return False
+    for q in its:
+        fins = _finalisations(q.events)
+        if len(fins) != 1:
+            return False
+        i, P, M = fins[0]
+        if P[0] != 'item' or P[2] != 0 or M[0] != 'item' or M[2] != 1 or not F.same(P[1], M[1]):
+            return False
+        mp = _meta_pair(P[1])
+        if mp is None or mp[1] != ('elem', L.uid):
+            return False
+        before = q.events[:i]
+        if not any(F.is_const(s, 0) for _, s in _truncations(before, P)):
+            return False
+        if not _creates(before, P):
+            return False
+    return True
+
+
+def _creates(events, P):
+    """the file at P certainly exists afterwards: an `open` of P that did not raise / touch / write_bytes"""
+    for i, e in enumerate(events):
+        cp = call_parts(e)
+        if cp is None or e.c == 'inlined':
+            continue
+        f, args, _kw = cp
+        nm = func_name(f)
+        raised = i + 1 < len(events) and events[i + 1].kind == 'raised'
+        if raised:
+            continue
+        if f[0] == 'attr' and nm in ('touch', 'write_bytes', 'write_text') and F.same(e.a[2][1], P):
+            return True
+        mode = None
+        if f[0] == 'attr' and nm == 'open' and F.same(e.a[2][1], P):
+            mode = args[0] if args else _kw.get('mode', ('const', 'r'))
+        elif f == ('name', 'open') and args and F.same(args[0], P):
+            mode = args[1] if len(args) > 1 else _kw.get('mode', ('const', 'r'))
+        if mode is not None and mode[0] == 'const' and isinstance(mode[1], str):
+            if set(mode[1]) & set('wax'):
+                return True
+            # a successful open for reading / updating means the file was there — provided the failure is handled somewhere
+            if any(fr[0] == 'try' for fr in e.ctx):
+                return True
+    return False
+
+
+def finalise_under_lock(flow, path):
+    """restore's loaders: the test that triggers finalisation of a file was evaluated inside the same `with <lock>` block
+    that removed the chunk's digest from the file's pending set, after the removal"""
+    seen = 0
+    for node, paths in flow.units_below(path):
+        for q in paths:
+            for e, chain, i, events in walk(q.events):
+                cp = call_parts(e) if e.kind == 'call' else None
+                if cp is None or func_name(cp[0]) != 'restore_metadata':
+                    continue
+                # removal of this chunk from a pending set on this (iteration) path
+                rem = [(j, x) for j, x in enumerate(events[:i]) if x.kind == 'call' and x.a[0] == 'call' and x.a[2][0] == 'attr'
+                       and x.a[2][2] in ('remove', 'discard')]
+                if len(rem) != 1:
+                    return False
+                j, r = rem[0]
+                pending = r.a[2][1]
+                locks = [f for f in r.ctx if f[0] == 'with']
+                if not locks:
+                    return False
+                # the deciding literal: emptiness of the pending set, between the removal and the finalisation
+                dec = [(k, x) for k, x in enumerate(events[:i]) if k > j and x.kind == 'cond'
+                       and emptiness([(x.a, x.b)], [pending]) is True]
+                if len(dec) != 1:
+                    return False
+                k, d = dec[0]
+                # where the state of the pending set was actually read: the locals of the test that were computed from it,
+                # the calls on it (len(…)) inside the literal, or else the test itself
+                where = []
+                t = d.node.test if isinstance(d.node, (ast.If, ast.IfExp, ast.While)) else None
+                for nm in ({n.id for n in ast.walk(t) if isinstance(n, ast.Name)} if t is not None else set()):
+                    binds = [x for x in events[:k] if x.kind == 'bind' and x.a == nm]
+                    if binds and F.mentions(binds[-1].b, pending):
+                        where.append(binds[-1])
+                for tcall in F.subterms(d.a):
+                    if tcall[0] == 'call' and F.sym_uid(tcall) is not None and F.mentions(tcall, pending):
+                        where += [x for x in events[:k] if x.kind == 'call' and F.sym_uid(x.a) == F.sym_uid(tcall)]
+                # a helper that returns the test: it was read where the helper returned it
+                lit = F.canon_lit(d.a, d.b)[0]
+                where += [x for x in events[:k] if x.kind == 'return' and x.a is not None and any(fr[0] == 'inline' for fr in x.ctx)
+                          and F.mentions(x.a, pending) and F.canon_lit(x.a, True)[0] == lit]
+                if not where:
+                    where = [d]
+                for w in where:
+                    if events.index(w) < j or locks[-1] not in w.ctx:
+                        return False
+                seen += 1
+    return seen > 0
+
+
+# ---- names of the fields of the private record classes of snapshot (a rename of one of them changes nothing)
+VOCAB_DEFAULT = {'f_start': 'stream_start', 'f_end': 'stream_end', 'f_path': 'path', 'f_digest': 'digest', 'f_meta': 'metadata',
+                 's_files': 'files', 's_current': 'current_file',
+                 'c_start': 'stream_start', 'c_end': 'stream_end', 'c_index': 'index', 'c_counter': 'counter'}
+VOCAB = dict(VOCAB_DEFAULT)
+
+
+def _ctor_kwargs(flow, call):
+    """keyword view of a constructor call of a module class: positional arguments named after the class's annotated fields"""
+    f = call[2]
+    kws = dict(call[4])
+    if call[3] and f[0] == 'class':
+        for st in flow.mod.tree.body:
+            if isinstance(st, ast.ClassDef) and st.name == f[1]:
+                fields = [x.target.id for x in st.body if isinstance(x, ast.AnnAssign) and isinstance(x.target, ast.Name)]
+                for nm, a in zip(fields, call[3]):
+                    kws.setdefault(nm, a)
+    return kws
+
+
+def infer_vocabulary(flow, path):
+    """which attribute plays which role, read from how the records are built and updated:
+    the per-file record is created in the generator that streams the files with two equal offsets (start, end) and str(path);
+    `end` is the one advanced by len(piece) in the read loop; the state appends (record.start, record) to its list of files and
+    keeps the record as the current one; the digest comes from <hasher>.digest(), the other attribute stored is the metadata.
+    The per-chunk record is built with end = start + len(piece), a counter that the state increments, an index into the table."""
+    v = dict(VOCAB_DEFAULT)
+    try:
+        for node, paths in flow.units_below(path, every=True):
+            for q in paths:
+                evs = [e for e, _c, _i, _l in walk(q.events)]
+                for e in evs:
+                    if not (e.kind == 'call' and e.a[0] == 'call' and e.a[2][0] == 'class' and e.c != 'inlined'):
+                        continue
+                    kws = _ctor_kwargs(flow, e.a)
+                    if F.is_generator(node):
+                        same = [(a, b) for a in kws for b in kws if a < b and F.strip(kws[a]) == F.strip(kws[b]) and kws[a][0] == 'attr']
+                        strs = [a for a in kws if kws[a][0] == 'call' and kws[a][2] == ('name', 'str')]
+                        if len(same) != 1 or len(strs) != 1 or len(kws) != 3:
+                            continue
+                        rec = e.a
+                        a, b = same[0]
+                        augs = {F.strip(x.a)[2] for x in evs if x.kind == 'aug' and x.a[0] == 'attr' and F.same(x.a[1], rec) and x.b == '+'
+                                and x.c[0] == 'call' and x.c[2] == ('name', 'len')}
+                        if augs == {a}:
+                            a, b = b, a
+                        if augs != {b}:
+                            continue
+                        v['f_start'], v['f_end'], v['f_path'] = a, b, strs[0]
+                        for x in evs:
+                            if x.kind == 'store' and x.a[0] == 'attr' and F.same(x.b, rec):
+                                v['s_current'] = x.a[2]
+                            if x.kind == 'call' and x.a[0] == 'call' and x.a[2][0] == 'attr' and x.a[2][2] == 'append' and x.a[2][1][0] == 'attr' \
+                                    and len(x.a[3]) == 1 and x.a[3][0][0] == 'tuple' and len(x.a[3][0][1]) == 2 and F.same(x.a[3][0][1][1], rec):
+                                v['s_files'] = x.a[2][1][2]
+                            if x.kind == 'store' and x.a[0] == 'attr' and F.same(x.a[1], rec):
+                                if x.b[0] == 'call' and x.b[2][0] == 'attr' and x.b[2][2] in ('digest', 'hexdigest', 'finalize'):
+                                    v['f_digest'] = x.a[2]
+                                else:
+                                    v['f_meta'] = x.a[2]
+                    else:
+                        ends = [a for a in kws if kws[a][0] == 'bin' and kws[a][1] == '+' and kws[a][3][0] == 'call' and kws[a][3][2] == ('name', 'len')
+                                and any(F.strip(kws[b]) == F.strip(kws[a][2]) for b in kws if b != a)]
+                        if len(ends) != 1:
+                            continue
+                        v['c_end'] = ends[0]
+                        v['c_start'] = [b for b in kws if b != ends[0] and F.strip(kws[b]) == F.strip(kws[ends[0]][2])][0]
+                        for a, val in kws.items():
+                            sv = F.strip(val)
+                            if sv[0] == 'attr' and any(x.kind == 'aug' and F.strip(x.a) == sv and x.b == '+' and F.is_const(x.c, 1) for x in evs):
+                                v['c_counter'] = a
+                            if (sv[0] == 'sub' and sv[1][0] == 'dict') or (sv[0] == 'call' and sv[2] == ('name', 'len') and len(sv[3]) == 1 and sv[3][0][0] == 'dict'):
+                                v['c_index'] = a
+    except (F.Unsupported, KeyError, IndexError, TypeError):
+        return dict(VOCAB_DEFAULT)
+    return v
+
+
+# ---- snapshot: files without any chunk
+def membership(q, k, d):
+    """True / False / None: this path knows that key k is / is not in dict d (membership test, d.get(k) is None,
+    d[k] evaluated with or without KeyError)"""
+    k, sd = F.strip(k), F.strip(d)
+    for c, p in F.known(q.lits()):
+        if c == ('cmp', 'in', k, sd):
+            return p
+        if c[0] == 'cmp' and c[1] == 'is' and ('const', None) in (c[2], c[3]):
+            other = c[3] if c[2] == ('const', None) else c[2]
+            if other[0] == 'call' and other[2] == ('attr', sd, 'get') and other[3] == (k,):
+                return not p
+    for i, e in enumerate(q.events):
+        if e.kind == 'raised' and e.b is not None and F.contains(F.strip(e.b), lambda t: t == ('sub', sd, k)) \
+                and i + 1 < len(q.events) and q.events[i + 1].kind == 'except' \
+                and q.events[i + 1].a is not None and 'KeyError' in F.show(q.events[i + 1].a):
+            return False
+        if e.kind in ('bind', 'eval') and F.strip(e.b if e.kind == 'bind' else e.a) == ('sub', sd, k):
+            return True
+    return None
+
+
+def _chunkless_record(k, v, holder):
+    """k == <file>.path and v == {'path': k, 'chunks': [], 'digest': <file>.digest, 'metadata': <file>.metadata} with <file>
+    derived from `holder` (the loop element)"""
+    k, v = F.strip(k), F.strip(v)
+    if not (k[0] == 'attr' and k[2] == VOCAB['f_path'] and F.mentions(k[1], holder)):
+        return False
+    fs = k[1]
+    items = dict_items(v)
+    return items is not None and set(items) == {'path', 'chunks', 'digest', 'metadata'} and items['path'] == k \
+        and items['chunks'] == ('list', 0, ()) and items['digest'] == ('attr', fs, VOCAB['f_digest']) \
+        and items['metadata'] == ('attr', fs, VOCAB['f_meta'])
+
+
+def _listed_afterwards(later, uid):
+    """the values (or items) of the dict with identity `uid` are read by one of these later events (evaluated there, not a
+    value computed earlier and only mentioned)"""
+    def reads(t):
+        return t[0] == 'call' and t[2][0] == 'attr' and t[2][2] in ('values', 'items') and F.sym_uid(t[2][1]) == uid
+    for x in later:
+        if x.kind != 'call':
+            continue
+        if x.a[0] == 'call' and reads(x.a):
+            return True
+        if x.a[0] == 'comp' and F.contains(x.a, reads):
+            return True
+    return False
+
+
+def records_chunkless(path):
+    """after the workers are done every streamed file that has no entry gets one with its digest / metadata and no chunks,
+    in the dict whose values become the snapshot's file list"""
+    # only what happens after the workers have been awaited counts (before that the list of streamed files is incomplete)
+    joined = [i for i, e in enumerate(path.events) if e.kind == 'call' and e.a[0] == 'call' and func_name(F.strip(e.a[2])) in ('gather', 'wait', 'as_completed')]
+    if not joined:
+        return False
+    for i, e in enumerate(path.events):
+        if i < joined[0]:
+            continue
+        # the same as one statement: D.update({f.path: {…} for _, f in state.files if f.path not in D})
+        if e.kind == 'call' and e.a[0] == 'call' and e.a[2][0] == 'attr' and e.a[2][2] == 'update' and len(e.a[3]) == 1 \
+                and e.a[3][0][0] == 'comp' and e.a[3][0][2] == 'dict' and len(e.a[3][0][4]) == 1:
+            d, comp = e.a[2][1], e.a[3][0]
+            (it, elem, conds), (k, v) = comp[4][0], comp[3]
+            src = F.strip(unwrap_iter(it))
+            if src[0] == 'attr' and src[2] == VOCAB['s_files'] and F.sym_uid(d) is not None and _chunkless_record(k, v, elem) \
+                    and [F.canon_lit(c, True) for c in conds] == [(('cmp', 'in', F.strip(k), F.strip(d)), False)] \
+                    and _listed_afterwards(path.events[i + 1:], F.sym_uid(d)):
+                return True
+        if e.kind != 'loop' or e.a.kind != 'for':
+            continue
+        L = e.a
+        it = F.strip(unwrap_iter(L.iter))
+        prefilter = []
+        if it[0] == 'call' and it[2] == ('name', 'map') and len(it[3]) == 2 and key_body(None, it[3][0]) == ('sub', ('bound', 0, 0), ('const', 1)):
+            it = F.strip(unwrap_iter(it[3][1]))          # the loop sees the second component of every entry
+        if it[0] == 'comp' and it[2] in ('list', 'gen') and len(it[4]) == 1 and len(it[3]) == 1:
+            # [f for _, f in state.files if f.path not in D]: the loop sees the files themselves; the filter is checked below
+            (src, celem, conds), elt = it[4][0], it[3][0]
+            src = F.strip(unwrap_iter(src))
+            if src[0] == 'attr' and src[2] == VOCAB['s_files'] and F.mentions(elt, celem):
+                it, prefilter = src, [(c, F.strip(elt)) for c in conds]
+        if not (it[0] == 'attr' and it[2] == VOCAB['s_files']):
+            continue
+        if any(q.status not in ('run', 'continue') for q in L.paths):
+            continue
+        d = key = None
+        ok = True
+        quiet = []
+        for q in L.paths:
+            sts = [x for x in q.events if x.kind == 'store' and x.a[0] == 'sub' and F.sym_uid(x.a[1]) is not None]
+            sdf = [x for x in q.events if x.kind == 'call' and x.a[0] == 'call' and x.a[2][0] == 'attr' and x.a[2][2] == 'setdefault'
+                   and len(x.a[3]) == 2 and F.sym_uid(x.a[2][1]) is not None]
+            cands = [(x.a[1], x.a[2], x.b, False) for x in sts] + [(x.a[2][1], x.a[3][0], x.a[3][1], True) for x in sdf]
+            if not cands:
+                quiet.append(q)
+                continue
+            if len(cands) > 1:
+                ok = False
+                break
+            D, K, V, is_sd = cands[0]
+            if not _chunkless_record(K, V, ('elem', L.uid)):
+                ok = False
+                break
+            # recorded only for files that have no entry yet (setdefault does that by itself)
+            if not is_sd and membership(q, K, D) is not False:
+                ok = False
+                break
+            if d is not None and not (F.same(d, D) and key == F.strip(K)):
+                ok = False
+                break
+            d, key = D, F.strip(K)
+        if not ok or d is None:
+            continue
+        # an iteration that records nothing must know that the file already has an entry
+        if any(membership(q, key, d) is not True for q in quiet):
+            continue
+        # a filter in front of the loop may only drop files that already have an entry
+        if any(F.canon_lit(c, True) != (('cmp', 'in', ('attr', elt, VOCAB['f_path']), F.strip(d)), False) for c, elt in prefilter):
+            continue
+        # the dict is what the snapshot lists afterwards
+        if _listed_afterwards(path.events[i + 1:], F.sym_uid(d)):
+            return True
+    return False
+
+
+# ---- the padding between files
+def _pad_remainder(p, lits):
+    """p == A - (len % A) on a path that knows len % A != 0 (the other spelling of -len % A): (F, A), else None"""
+    p = F.strip(p)
+    ln = ('bin', '-', ('attr', F.Cap('f'), VOCAB['f_end']), ('attr', F.Cap('f'), VOCAB['f_start']))
+    c = F.match(p, ('bin', '-', F.Cap('a'), ('bin', '%', ln, F.Cap('a'))))
+    if c is None:
+        return None
+    rem = p[3]
+    for l, pol in F.known(lits):
+        if (l == rem and pol) or (l[0] == 'cmp' and l[1] == '==' and rem in (l[2], l[3]) and ('const', 0) in (l[2], l[3]) and not pol) \
+                or (l == ('cmp', '<', ('const', 0), rem) and pol):
+            return c['f'], c['a']
+    return None
+
+
+def _no_remainder(lits):
+    """the path knows that (end - start) % alignment == 0 for some file"""
+    ln = ('bin', '-', ('attr', F.Cap('f'), VOCAB['f_end']), ('attr', F.Cap('f'), VOCAB['f_start']))
+    for l, pol in F.known(lits):
+        if F.match(l, ('bin', '%', ln, F.Cap('a'))) is not None and not pol:
+            return True
+        if l[0] == 'cmp' and l[1] == '==' and pol and ('const', 0) in (l[2], l[3]):
+            other = l[3] if l[2] == ('const', 0) else l[2]
+            if F.match(other, ('bin', '%', ln, F.Cap('a'))) is not None:
+                return True
+    return False
+
+
+def _pad_len(p, caps=None):
+    """p == -(F.stream_end - F.stream_start) % A  (or (A - len % A) % A): returns (F, A) stripped, else None"""
+    p = F.strip(p)
+    ln = ('bin', '-', ('attr', F.Cap('f'), VOCAB['f_end']), ('attr', F.Cap('f'), VOCAB['f_start']))
+    for pat in (('bin', '%', ('un', '-', ln), F.Cap('a')),
+                ('bin', '%', ('bin', '-', F.Cap('a'), ('bin', '%', ln, F.Cap('a'))), F.Cap('a')),
+                # round the length up to a multiple, minus the length: -(-len // a) * a - len
+                ('bin', '-', ('bin', '*', ('un', '-', ('bin', '//', ('un', '-', ln), F.Cap('a'))), F.Cap('a')), ln)):
+        c = F.match(p, pat)
+        if c is not None:
+            return c['f'], c['a']
+    return None
+
+
+def _zero_bytes(v):
+    """n when v is n zero bytes: bytes(n), b'\\0' * n, bytearray(n)"""
+    if v[0] == 'call' and v[2] in (('name', 'bytes'), ('name', 'bytearray')) and len(v[3]) == 1 and not v[4]:
+        return v[3][0]
+    if v[0] == 'bin' and v[1] == '*':
+        for z, n in ((v[2], v[3]), (v[3], v[2])):
+            if z == ('const', b'\x00'):
+                return n
+    return None
+
+
+def padding_shape(flow, path):
+    """the generator feeding the chunker yields `-(size of the previous file) % alignment` zero bytes between files,
+    exactly when that number is non-zero (and there is a previous file and an alignment)"""
+    found = 0
+    for node, paths in flow.units_below(path):
+        if not F.is_generator(node):
+            continue
+        for q in paths:
+            for e in q.events:
+                if e.kind != 'loop' or e.a.kind != 'for':
+                    continue
+                L = e.a
+                pads = 0
+                consistent = True
+                for it in L.paths:
+                    ys = []
+                    for x in it.events:
+                        if x.kind != 'yield':
+                            continue
+                        n = _zero_bytes(x.a)
+                        pl = (_pad_len(n) or _pad_remainder(n, it.lits())) if n is not None else None
+                        if pl is not None:
+                            ys.append((x, pl))
+                    if len(ys) > 1:
+                        consistent = False
+                        break
+                    lits = it.lits()
+                    if ys:
+                        x, (fsym, asym) = ys[0]
+                        if not (asym[0] == 'attr' and asym[2] == 'alignment'):
+                            consistent = False
+                            break
+                        pads += 1
+                        continue
+                    # no padding on this iteration: allowed only when it is known not to be needed
+                    need = False if _no_remainder(lits) else None
+                    for c, p in F.known(lits):
+                        if c[0] == 'attr' and c[2] == 'alignment' and not p:
+                            need = False
+                        if _pad_len(c) is not None and not p:
+                            need = False
+                        if not p and F.match(c, ('bin', '-', F.Cap('a'), ('bin', '%', ('bin', '-', ('attr', F.Cap('f'), VOCAB['f_end']),
+                                                                                  ('attr', F.Cap('f'), VOCAB['f_start'])), F.Cap('a')))) is not None:
+                            need = False       # a - len % a is never 0: this path cannot happen
+                        if c[0] == 'cmp' and c[1] == '==' and p and ((F.is_const(c[2], 0) and _pad_len(c[3]) is not None)
+                                                                    or (F.is_const(c[3], 0) and _pad_len(c[2]) is not None)):
+                            need = False
+                        if c[0] == 'cmp' and c[1] == '<' and not p and F.is_const(c[2], 0) and _pad_len(c[3]) is not None:
+                            need = False       # not (0 < padding)
+                        if c[0] == 'cmp' and c[1] == '<' and p and F.is_const(c[3], 1) and _pad_len(c[2]) is not None:
+                            need = False       # padding < 1
+                        if c[0] == 'cmp' and c[1] == 'is' and (F.is_const(c[2]) and c[2][1] is None or F.is_const(c[3]) and c[3][1] is None) and p:
+                            other = c[3] if F.is_const(c[2]) else c[2]
+                            if other[0] == 'attr' and other[2] == VOCAB['s_current']:
+                                need = False
+                    if need is not False:
+                        # iterations that do not reach the file at all (e.g. skipped entries) would also land here
+                        consistent = False
+                        break
+                if consistent and pads:
+                    found += 1
+                elif pads:
+                    return False
+    return found > 0
+
+
+# ---- the transfer piece size under a rate limit
+def _divisor(s):
+    """s == max(rate_limit // (concurrent * N), 1) (any operand order; a // b // c accepted): N, else None"""
+    s = F.strip(s)
+    if s[0] == 'bool' and s[1] == 'or' and len(s[2]) == 2 and F.is_const(s[2][1], 1):
+        s = ('call', 0, ('name', 'max'), s[2], ())        # n or 1 == max(n, 1) for n >= 0
+    if not (s[0] == 'call' and s[2] == ('name', 'max') and len(s[3]) == 2 and not s[4]):
+        return None
+    a, b = s[3]
+    if F.is_const(a, 1):
+        a, b = b, a
+    if not F.is_const(b, 1):
+        return None
+
+    def conc(t):
+        return t == ('ctor', 'concurrent') or (t[0] == 'attr' and t[1] == ('self',) and 'concurrent' in t[2])
+    if a[0] == 'bin' and a[1] == '//':
+        num, den = a[2], a[3]
+        if num[0] == 'bin' and num[1] == '//':        # (r // x) // y
+            x, y = num[3], den
+            num = num[2]
+        elif den[0] == 'bin' and den[1] == '*':
+            x, y = den[2], den[3]
+        else:
+            return None
+        if num != ('param', 'rate_limit'):
+            return None
+        if conc(y):
+            x, y = y, x
+        if conc(x) and y[0] == 'const' and type(y[1]) is int and y[1] > 0:
+            return y[1]
+    return None
+
+
+STREAM_ARG = {'upload_stream': 3, 'download_stream': 2}
+
+
+def rate_divisors(flow):
+    """{command: set of N or 'other'} over every rate-limited path that hands a piece size to backend.*_stream"""
+    out = {}
+    for name, node in flow.mod.classes.get(flow.cls, {}).items():
+        a = node.args
+        if 'rate_limit' not in [x.arg for x in a.args + a.kwonlyargs]:
+            continue
+        vals = set()
+        for p in representatives(returns(flow.top(name))):
+            units = [(node, [p])] + list(flow.units_below(p, every=True))
+            for _n, paths in units:
+                for q in paths:
+                    for e, chain, i, events in walk(q.events):
+                        cp = call_parts(e) if e.kind == 'call' else None
+                        if cp is None:
+                            continue
+                        f, args, kw = cp
+                        args = list(args)
+                        if len(args) == 1 and args[0][0] == 'star' and args[0][1][0] == 'tuple':
+                            args = list(args[0][1][1])
+                        sname = None
+                        if f[0] == 'attr' and f[2] in STREAM_ARG and f[1] in (('ctor', 'backend'), ('attr', ('self',), 'backend')):
+                            sname, rest = f[2], args
+                        else:
+                            for k, x in enumerate(args):
+                                sx = F.strip(x)
+                                if sx[0] == 'attr' and sx[2] in STREAM_ARG and sx[1] in (('ctor', 'backend'), ('attr', ('self',), 'backend')):
+                                    sname, rest = sx[2], args[k + 1:]
+                                    break
+                        if sname is None:
+                            continue
+                        if 'chunk_size' in kw:
+                            piece = kw['chunk_size']
+                        elif len(rest) > STREAM_ARG[sname]:
+                            piece = rest[STREAM_ARG[sname]]
+                        else:
+                            piece = None
+                        if piece is None:
+                            vals.add('default')
+                            continue
+                        if F.contains(piece, lambda t: t == ('param', 'rate_limit')):
+                            n = _divisor(piece)
+                            vals.add(n if n is not None else 'other')
+                        else:
+                            # the unlimited value: must be on a path that knows there is no limit
+                            nolimit = False
+                            for l, pol in p.lits() + q.lits():
+                                c, pp = F.canon_lit(l, pol)
+                                if (c == ('cmp', 'is', ('const', None), ('param', 'rate_limit')) and pp) or (c == ('param', 'rate_limit') and not pp):
+                                    nolimit = True
+                            vals.add('default' if nolimit else 'other')
+        out[name] = vals
+    return out
+
+
+# ---- the snapshot cache
+def _is_cache_dir(t):
+    return t == ('ctor', 'cache_directory') or (t[0] == 'attr' and t[1] == ('self',) and 'cache' in t[2])
+
+
+def _cache_reads(events):
+    """(index, sym) of reads of a file below the cache directory that did not raise"""
+    out = []
+    for i, e in enumerate(events):
+        if e.kind != 'call' or e.a[0] != 'call' or e.c == 'inlined':
+            continue
+        f = e.a[2]
+        nm = func_name(F.strip(f))
+        if nm in ('read_bytes', 'read_text', 'read') and f[0] == 'attr' and F.contains(f[1], _is_cache_dir):
+            if i + 1 < len(events) and events[i + 1].kind == 'raised':
+                continue
+            out.append((i, e.a))
+    return out
+
+
+def cache_verified(flow):
+    """no method of the class uses the contents of a cached file before comparing their hash with the expected digest"""
+    mod = flow.mod
+    meths = mod.classes.get(flow.cls, {})
+    # methods that can reach the cache directory at all (syntactic call graph over self.<method>(…))
+    attrs = {a for a, v in mod.ctor.get(flow.cls, {}).items() if v == ('ctor', 'cache_directory')}
+    touch, calls = set(), {}
+    for name, node in meths.items():
+        calls[name] = {n.attr for n in ast.walk(node) if isinstance(n, ast.Attribute) and isinstance(n.value, ast.Name)
+                       and n.value.id == 'self' and n.attr in meths}
+        if any(isinstance(n, ast.Attribute) and isinstance(n.value, ast.Name) and n.value.id == 'self'
+               and (n.attr in attrs or 'cache' in n.attr) and n.attr not in meths for n in ast.walk(node)):
+            touch.add(name)
+    reach = set(touch)
+    changed = True
+    while changed:
+        changed = False
+        for name in meths:
+            if name not in reach and calls[name] & reach:
+                reach.add(name)
+                changed = True
+    verified = 0
+    passthrough = set()
+    for name in sorted(reach):
+        node = meths[name]
+        units = []
+        top = flow.top(name)
+        units.append((node, top))
+        for p in returns(top)[:1] or top[:1]:
+            units += list(flow.units_below(p))
+        for unode, paths in units:
+            for q in paths:
+                for evs in _event_lists(q.events):
+                    for i, cr in _cache_reads(evs):
+                        uid = cr[1]
+                        checked_at = None
+                        for j in range(i + 1, len(evs)):
+                            x = evs[j]
+                            if x.kind == 'cond':
+                                if checked_at is None and _digest_checked(evs[i + 1:j + 1], cr):
+                                    checked_at = j
+                                continue
+                            use = _uses(x, uid)
+                            if use is None:
+                                continue
+                            if use == 'return' and not any(fr[0] == 'inline' for fr in x.ctx):
+                                if checked_at is None:
+                                    passthrough.add((name, unode.name))
+                                else:
+                                    verified += 1
+                                continue
+                            if use == 'return':
+                                continue
+                            if checked_at is None:
+                                notes['cacheVerified'] = f'{name}: cached contents used before the digest check ({F.show(x.a)[:120]})'
+                                return False
+                            verified += 1
+    # a method that hands the raw contents on must have been followed wherever it is called
+    raw_names = {m for m, u in passthrough}
+    for name in sorted(reach):
+        for q in flow.top(name):
+            for e, _c, _i, _e in walk(q.events):
+                if e.kind == 'call' and e.a[0] == 'call' and e.c != 'inlined' and e.a[2][0] == 'method' and e.a[2][2] in raw_names:
+                    notes['cacheVerified'] = f'{name}: call of {e.a[2][2]} (raw cache read) could not be followed'
+                    return False
+    # … and must only ever be called directly (so that its callers were analysed with it)
+    for mname, uname in passthrough:
+        if mname != uname:
+            notes['cacheVerified'] = f'{mname}.{uname} returns unverified cached contents'
+            return False
+        for other in meths.values():
+            for n in ast.walk(other):
+                if isinstance(n, ast.Attribute) and isinstance(n.value, ast.Name) and n.value.id == 'self' and n.attr == mname:
+                    par = [c for c in ast.walk(other) if isinstance(c, ast.Call) and c.func is n]
+                    if not par:
+                        notes['cacheVerified'] = f'{mname} (raw cache read) is passed around'
+                        return False
+        if meths[mname].decorator_list or F.is_generator(meths[mname]):
+            return False
+    return verified > 0
+
+
+def _digest_checked(events, cr):
+    """the literals of these events imply hash_digest(cr) == <something that is not derived from cr>, for THIS read"""
+    uid = cr[1]
+    mine = [(e.a, e.b) for e in events if e.kind == 'cond' and F.contains(e.a, lambda t: F.sym_uid(t) == uid and t[0] == 'call')]
+    scr = F.strip(cr)
+    for c, pol in F.known(mine):
+        if not pol:
+            continue
+        pairs = []
+        if c[0] == 'cmp' and c[1] == '==':
+            pairs = [(c[2], c[3]), (c[3], c[2])]
+        elif c[0] == 'call' and func_name(c[2]) == 'compare_digest' and len(c[3]) == 2:
+            pairs = [(c[3][0], c[3][1]), (c[3][1], c[3][0])]
+        for h, d in pairs:
+            if h[0] == 'call' and func_name(h[2]) == 'hash_digest' and len(h[3]) == 1 and h[3][0] == scr \
+                    and not F.contains(d, lambda t: t == scr) and d[0] != 'const':
+                return True
+    return False
+
+
+def _event_lists(events):
+    """the event list of a path and of every loop iteration below it"""
+    yield events
+    for e in events:
+        if e.kind == 'loop':
+            for q in e.a.paths:
+                yield from _event_lists(q.events)
+
+
+LOGGERS = ('logger', 'logging', 'log')
+
+
+def _uses(x, uid):
+    """how event x uses the value with evaluation identity `uid`: None / 'return' / 'use'"""
+    def has(t):
+        return F.contains(t, lambda s: F.sym_uid(s) == uid and s[0] == 'call')
+    if x.kind == 'return':
+        return 'return' if x.a is not None and has(x.a) else None
+    if x.kind == 'yield':
+        return 'use' if has(x.a) else None
+    if x.kind in ('store', 'aug'):
+        return 'use' if has(x.b if x.kind == 'store' else x.c) or has(x.a) else None
+    if x.kind == 'loop':
+        for q in x.a.paths:
+            for y, _c, _i, _e in walk(q.events):
+                if y.kind != 'cond' and _uses(y, uid) is not None:
+                    return 'use'
+        return None
+    if x.kind == 'call' and x.a[0] == 'comp':
+        return 'use' if has(x.a) else None
+    if x.kind == 'call' and x.a[0] == 'call':
+        if x.c == 'inlined':
+            return None          # the helper's own events follow and are looked at one by one
+        f = F.strip(x.a[2])
+        root = f
+        while root[0] == 'attr':
+            root = root[1]
+        if root[0] == 'name' and root[1] in LOGGERS:
+            return None
+        if func_name(f) in ('hash_digest', 'len', 'isinstance', 'type', 'id'):
+            return None
+        if any(has(a) for a in x.a[3]) or any(has(v) for _, v in x.a[4]) or has(x.a[2]):
+            return 'use'
+    return None
+
+
+# ---- integer / Boolean syms → Lean (through cexpr.translate)
+def sym_src(x, leaf):
+    """source text (Python syntax) of an integer / Boolean sym; `leaf(sym)` names the atoms.  Raises Untranslatable."""
+    x = F.strip(x)
+    nm = leaf(x)
+    if nm is not None:
+        return nm
+    k = x[0]
+    if k == 'const' and type(x[1]) is int and x[1] >= 0:
+        return str(x[1])
+    if k == 'bin' and x[1] in ('+', '-', '*', '//', '%'):
+        return f'({sym_src(x[2], leaf)} {x[1]} {sym_src(x[3], leaf)})'
+    if k == 'bin' and x[1] == '&' and x[3][0] == 'const' and type(x[3][1]) is int and x[3][1] < 0:
+        return f'({sym_src(x[2], leaf)} & -{-x[3][1]})'
+    if k == 'cmp' and x[1] in ('<', '<=', '>', '>=', '==', '!='):
+        return f'({sym_src(x[2], leaf)} {x[1]} {sym_src(x[3], leaf)})'
+    if k == 'bool':
+        return '(' + f' {x[1]} '.join(sym_src(a, leaf) for a in x[2]) + ')'
+    if k == 'not':
+        return f'(not {sym_src(x[1], leaf)})'
+    if k == 'call' and x[2] in (('name', 'max'), ('name', 'min')) and len(x[3]) == 2 and not x[4]:
+        return f'{x[2][1]}({sym_src(x[3][0], leaf)}, {sym_src(x[3][1], leaf)})'
+    raise Untranslatable(f'not an integer expression: {F.show(x)[:80]}')
+
+
+def neg_cmp(x):
+    """the negation of a comparison sym as a comparison"""
+    x = F.strip(x)
+    if x[0] == 'not':
+        return x[1]
+    if x[0] == 'cmp' and x[1] in F.NEG_CMP:
+        return ('cmp', F.NEG_CMP[x[1]], x[2], x[3])
+    return ('not', x)
+
+
+# ---- snapshot: attribution of a finished chunk to the files it covers
+def chunk_done_shape(flow, path):
+    """{'bisectKey', 'stopScan', 'partStart', 'partEndAbs', 'partEndBase', 'fileComplete'} (Lean terms) read from the function
+    that walks the streamed files backwards from the bisection point of a chunk.  Raises on anything else."""
+    last = None
+    for node, paths in flow.units_below(path, every=True):
+        for q in paths:
+            bis = [e for e in q.events if e.kind == 'call' and e.a[0] == 'call' and func_name(F.strip(e.a[2])) == 'bisect_left']
+            if len(bis) != 1 or q.status != 'return':
+                continue
+            try:
+                return _chunk_done_one(node, q, bis[0])
+            except (Untranslatable, AssertionError) as e:
+                last = e
+    raise Untranslatable(f'chunk attribution not recognised: {last!r}')
+
+
+def _chunk_done_one(node, q, bis):
+    params = [a.arg for a in node.args.posonlyargs + node.args.args]
+    assert len(params) == 1, 'one parameter (the chunk) expected'
+    C = ('param', params[0])
+    b = bis.a
+    assert len(b[3]) == 2 and not b[4], 'bisect_left(files, key)'
+    files, key = F.strip(b[3][0]), b[3][1]
+    assert files[0] == 'attr' and files[2] == VOCAB['s_files'], 'bisects the list of streamed files'
+    assert key[0] == 'tuple' and len(key[1]) == 1, 'bisection key is a 1-tuple'
+    sb = F.strip(b)
+    # the loop walks the indices bisect-1 … 0 (or the entries themselves, reversed)
+    loops = [e.a for e in q.events if e.kind == 'loop' and e.a.kind == 'for']
+    L = None
+    for cand in loops:
+        it = F.strip(cand.iter)
+        down = ('call', 0, ('name', 'range'), (('bin', '-', sb, ('const', 1)), ('const', -1), ('const', -1)), ())
+        rev = [('call', 0, ('name', 'reversed'), (('call', 0, ('name', 'range'), (sb,), ()),), ()),
+               ('call', 0, ('name', 'reversed'), (('call', 0, ('name', 'range'), (('const', 0), sb), ()),), ())]
+        ent = ('call', 0, ('name', 'reversed'), (('sub', files, ('slice', ('const', None), sb, ('const', None))),), ())
+        if it == down or it in rev:
+            L, entry = cand, ('sub', files, ('elem', cand.uid))
+        elif it == ent:
+            L, entry = cand, ('elem', cand.uid)
+    assert L is not None, 'no backwards walk from the bisection point'
+    fsym = ('item', entry, 1)
+    last = ('sub', entry, ('const', -1))        # the entries are (offset, file) pairs: entry[-1] is entry[1]
+    q = _rewrite_paths(L, last, fsym)
+
+    def leaf(x):
+        if x[0] == 'attr' and x[1] == fsym and x[2] in (VOCAB['f_start'], VOCAB['f_end']):
+            return 'fs' if x[2] == VOCAB['f_start'] else 'fe'
+        if x[0] == 'attr' and x[1] == C and x[2] in (VOCAB['c_start'], VOCAB['c_end']):
+            return 'cs' if x[2] == VOCAB['c_start'] else 'ce'
+        return None
+    names = {'fs': ('fs', 'nat'), 'fe': ('fe', 'nat'), 'cs': ('cs', 'nat'), 'ce': ('ce', 'nat')}
+    got = {'bisectKey': translate(sym_src(key[1][0], leaf), names, 'nat')}
+    # stop condition: the iterations that `break` do so on exactly one test, made before anything else happens
+    brk = [p for p in L.paths if p.status == 'break']
+    go = [p for p in L.paths if p.status in ('run', 'continue')]
+    assert brk and go and len(brk) + len(go) == len(L.paths), 'iterations either stop the walk or attribute'
+    stops = set()
+    for p in brk:
+        conds = [e for e in p.events if e.kind == 'cond']
+        assert len(conds) == 1 and not any(e.kind in ('store', 'aug', 'del') or (e.kind == 'call' and e.c != 'inlined')
+                                           for e in p.events), 'stop test comes first'
+        stops.add(F.canon_lit(conds[0].a, conds[0].b))
+    assert len(stops) == 1
+    stop_c, stop_p = next(iter(stops))
+    for p in go:
+        first = [e for e in p.events if e.kind == 'cond'][0]
+        assert F.canon_lit(first.a, first.b) == (stop_c, not stop_p), 'the other iterations passed the stop test'
+    raw = [e for e in brk[0].events if e.kind == 'cond'][0]
+    stop_sym = raw.a if raw.b else neg_cmp(raw.a)
+    got['stopScan'] = translate(sym_src(stop_sym, leaf), names, 'bool')
+    # the reference appended to the file's chunk list
+    part = None
+    complete = set()
+    for p in go:
+        apps = [e for e in p.events if e.kind == 'call' and e.a[0] == 'call' and e.a[2][0] == 'attr' and e.a[2][2] == 'append'
+                and F.strip(e.a[2][1])[0] == 'sub' and F.strip(e.a[2][1])[2] == ('const', 'chunks') and len(e.a[3]) == 1]
+        assert len(apps) == 1, 'one reference per covered file'
+        items = dict_items(F.strip(apps[0].a[3][0]))
+        assert items is not None and set(items) == {'range', 'index', 'counter'}
+        assert items['index'] == ('attr', C, VOCAB['c_index']) and items['counter'] == ('attr', C, VOCAB['c_counter'])
+        rng = items['range']
+        assert rng[0] in ('list', 'tuple') and len(rng[-1]) == 2
+        ps, pe = rng[-1]
+        assert part in (None, (ps, pe))
+        part = (ps, pe)
+        # completion: digest / metadata copied exactly when the chunk reaches the file's end and the file was fully read
+        sts = [e for e in p.events if e.kind == 'store' and F.strip(e.a)[0] == 'sub' and F.strip(e.a)[2] in (('const', 'digest'), ('const', 'metadata'))]
+        if sts:
+            vals = {F.strip(e.a)[2][1]: F.strip(e.b) for e in sts}
+            assert vals == {'digest': ('attr', fsym, VOCAB['f_digest']), 'metadata': ('attr', fsym, VOCAB['f_meta'])}
+            lits = [(e.a, e.b) for e in p.events if e.kind == 'cond'][1:]
+            cmps = []
+            seen_digest = False
+            for l, pol in lits:
+                c, pp = F.canon_lit(l, pol)
+                if c[0] == 'cmp' and c[1] == 'is' and ('attr', fsym, VOCAB['f_digest']) in (c[2], c[3]) and ('const', None) in (c[2], c[3]) and not pp:
+                    seen_digest = True
+                elif c[0] == 'cmp' and c[1] == 'in':
+                    continue
+                else:
+                    cmps.append(l if pol else neg_cmp(l))
+            assert seen_digest and len(cmps) == 1, 'completion = (chunk end ≥ file end) and digest known'
+            complete.add(F.strip(cmps[0]))
+    assert part is not None and len(complete) == 1
+    ps, pe = part
+    # max(a - b, 0) is truncated subtraction on Nat
+    assert ps[0] == 'call' and ps[2] == ('name', 'max') and len(ps[3]) == 2 and ('const', 0) in ps[3], 'part start = max(·, 0)'
+    diff = ps[3][0] if ps[3][1] == ('const', 0) else ps[3][1]
+    got['partStart'] = translate(sym_src(diff, leaf), names, 'nat', nat_sub=True)
+    assert pe[0] == 'bin' and pe[1] == '-', 'part end = min(file end, chunk end) - chunk start'
+    got['partEndAbs'] = translate(sym_src(pe[2], leaf), names, 'nat')
+    got['partEndBase'] = translate(sym_src(pe[3], leaf), names, 'nat')
+    got['fileComplete'] = translate(sym_src(next(iter(complete)), leaf), names, 'bool')
+    return got
+
+
+def _rewrite_paths(L, old, new):
+    """replace the stripped sub-sym `old` by `new` in the events of the iteration paths of loop L (in place)"""
+    def rw(x):
+        if not isinstance(x, tuple) or not x or isinstance(x, F.LoopInfo):
+            return x
+        if isinstance(x[0], str) and F.strip(x) == old:
+            return new
+        return tuple(rw(a) if isinstance(a, tuple) else a for a in x)
+    for p in L.paths:
+        for e in p.events:
+            if e.kind in ('cond', 'call', 'store', 'bind', 'aug', 'eval'):
+                if isinstance(e.a, tuple) and F.contains(e.a, lambda t: F.strip(t) == old):
+                    e.a = rw(e.a)
+                if isinstance(e.b, tuple) and F.contains(e.b, lambda t: F.strip(t) == old):
+                    e.b = rw(e.b)
+    return None
+
+
+# ---- smaller facts of snapshot / restore
+def _conc(t):
+    return t == ('ctor', 'concurrent') or (t[0] == 'attr' and t[1] == ('self',) and 'concurrent' in t[2])
+
+
+def _conc_factor(x):
+    """x == concurrent * N (either order): N"""
+    x = F.strip(x)
+    if x[0] == 'bin' and x[1] == '*':
+        a, b = x[2], x[3]
+        if _conc(b):
+            a, b = b, a
+        if _conc(a) and b[0] == 'const' and type(b[1]) is int:
+            return b[1]
+    return None
+
+
+def queue_factor(paths):
+    """N of `queue.Queue(maxsize=concurrent * N)` (the chunk queue of snapshot), same on every path"""
+    vals = set()
+    for p in paths:
+        found = None
+        for e in p.events:
+            cp = call_parts(e) if e.kind == 'call' else None
+            if cp is not None and func_name(cp[0]) in ('Queue', 'LifoQueue', 'SimpleQueue') and ('maxsize' in cp[2] or cp[1]):
+                found = _conc_factor(cp[2]['maxsize'] if 'maxsize' in cp[2] else cp[1][0])
+        vals.add(found)
+    return vals.pop() if len(vals) == 1 else None
+
+
+def loader_factor(paths):
+    """N of the executor the chunk loaders of restore run in: ThreadPoolExecutor(max_workers=concurrent * N)"""
+    vals = set()
+    for p in paths:
+        found = None
+        for e in p.events:
+            if e.kind != 'call':
+                continue
+            for t in F.subterms(e.a):
+                if t[0] == 'call' and t[2][0] == 'attr' and t[2][2] == 'run_in_executor' and len(t[3]) >= 2 and F.funcs_in(t[3][1]):
+                    ex = t[3][0]
+                    if ex[0] == 'call' and func_name(F.strip(ex[2])) == 'ThreadPoolExecutor':
+                        kw = dict(ex[4])
+                        arg = kw.get('max_workers', ex[3][0] if ex[3] else None)
+                        found = _conc_factor(arg) if arg is not None else None
+        vals.add(found)
+    return vals.pop() if len(vals) == 1 else None
+
+
+def write_truncate(flow):
+    """the length `<file>.truncate(·)` is called with where one part of a file is written at an offset (seek(offset), write(data)
+    on the same file object), as a Lean term over (fileEnd, off, dlen) — in a method of its own or inlined where it is used"""
+    cands = []
+    units = []
+    for name, node in flow.mod.classes.get(flow.cls, {}).items():
+        src_names = {n.attr for n in ast.walk(node) if isinstance(n, ast.Attribute)}
+        if not {'truncate', 'seek', 'write'} <= src_names:
+            continue
+        top = returns(flow.top(name))
+        units.append(top)
+        for p in representatives(top):
+            units += [paths for _n, paths in flow.units_below(p, every=True)]
+    for paths in units:
+        for q in paths:
+            for e, chain, i, events in walk(q.events):
+                cp = call_parts(e) if e.kind == 'call' else None
+                if cp is None or cp[0][0] != 'attr' or cp[0][2] != 'truncate' or len(cp[1]) != 1 or e.c == 'inlined':
+                    continue
+                fobj = e.a[2][1]
+                writes = [x for x in events if x.kind == 'call' and x.a[0] == 'call' and x.a[2][0] == 'attr' and x.a[2][2] == 'write'
+                          and F.same(x.a[2][1], fobj) and len(x.a[3]) == 1 and x.c != 'inlined']
+                seeks = [x for x in events if x.kind == 'call' and x.a[0] == 'call' and x.a[2][0] == 'attr' and x.a[2][2] == 'seek'
+                         and F.same(x.a[2][1], fobj) and x.c != 'inlined' and (len(x.a[3]) == 1 or (
+                             len(x.a[3]) == 2 and F.strip(x.a[3][1]) in (('const', 0), ('attr', ('name', 'os'), 'SEEK_SET'), ('attr', ('name', 'io'), 'SEEK_SET'))))]
+                if len(writes) != 1 or len(seeks) != 1:
+                    continue
+                data, off = F.strip(writes[0].a[3][0]), F.strip(seeks[0].a[3][0])
+
+                def leaf(x, fobj=fobj, data=data, off=off):
+                    if x == off:
+                        return 'offset'
+                    if x == ('call', 0, ('name', 'len'), (data,), ()):
+                        return 'dlen'
+                    if x[0] == 'call' and x[2][0] == 'attr' and x[2][2] == 'seek' and x[2][1] == F.strip(fobj) and len(x[3]) == 2 \
+                            and x[3][0] == ('const', 0) and x[3][1] in (('attr', ('name', 'io'), 'SEEK_END'), ('attr', ('name', 'os'), 'SEEK_END'), ('const', 2)):
+                        return 'file_end'
+                    return None
+                names = {'file_end': ('fileEnd', 'nat'), 'offset': ('off', 'nat'), 'dlen': ('dlen', 'nat')}
+                arg = F.strip(cp[1][0])
+                # max(a, b) written as a branch: this path knows which of the two is the larger one
+                for c, pol in F.known([(y.a, y.b) for y in events[:i] if y.kind == 'cond']):
+                    if c[0] == 'cmp' and c[1] == '<' and arg in (c[2], c[3]):
+                        lo, hi = (c[2], c[3]) if pol else (c[3], c[2])        # lo < hi, or lo <= hi
+                        if arg == hi:
+                            both = sorted([lo, hi], key=lambda t: 0 if leaf(t) == 'file_end' else 1)
+                            arg = ('call', 0, ('name', 'max'), tuple(both), ())
+                cands.append(translate(sym_src(arg, leaf), names, 'nat'))
+    if not cands or len(set(cands)) != 1:
+        raise Untranslatable(f'write-part code not recognised ({len(set(cands))} candidates)')
+    return cands[0]
+
+
+def piece_size(flow, path):
+    """the number of bytes the file-streaming generator of snapshot asks for in one read"""
+    vals = set()
+    for node, paths in flow.units_below(path, every=True):
+        if not F.is_generator(node):
+            continue
+        defaults = {}
+        a = node.args
+        for prm, d in zip((a.posonlyargs + a.args)[len(a.posonlyargs + a.args) - len(a.defaults):], a.defaults):
+            defaults[prm.arg] = d
+        for q in paths:
+            for e, chain, i, events in walk(q.events):
+                cp = call_parts(e) if e.kind == 'call' else None
+                if cp is None or cp[0][0] != 'attr' or cp[0][2] not in ('read', 'read1', 'readinto') or len(cp[1]) != 1:
+                    continue
+                n = F.strip(cp[1][0])
+                if n[0] == 'const' and type(n[1]) is int:
+                    vals.add(n[1])
+                elif n[0] == 'param' and n[1] in defaults:
+                    # the default applies when no caller passes the parameter
+                    calls = [c for c in ast.walk(flow.method('snapshot')) if isinstance(c, ast.Call) and isinstance(c.func, ast.Name)
+                             and c.func.id == node.name]
+                    if calls and all(not c.args and not c.keywords for c in calls):
+                        try:
+                            consts = {k: v[1] for k, v in flow.mod.env.items() if v[0] == 'const'}
+                            d = defaults[n[1]]
+                            if isinstance(d, ast.Attribute) and isinstance(d.value, ast.Name) and d.value.id in ('self', 'cls', flow.cls):
+                                cc = flow.mod.class_consts.get(flow.cls, {}).get(d.attr)
+                                vals.add(cc[1] if cc is not None else None)
+                            else:
+                                vals.add(const_eval(d, consts))
+                        except Exception:  # noqa: BLE001
+                            vals.add(None)
+                    else:
+                        vals.add(None)
+                elif n[0] == 'param':
+                    pass          # a helper generator that is handed the size: seen with its value where it is delegated to
+                else:
+                    vals.add(None)
+    if len(vals) == 1 and type(next(iter(vals))) is int:
+        return next(iter(vals))
+    return None
+
+
+def _slice_of(x, base):
+    """x == base[lo:hi] → (lo, hi) with None for an open end"""
+    if x[0] == 'sub' and x[1] == base and x[2][0] == 'slice' and x[2][3] == ('const', None):
+        lo, hi = x[2][1], x[2][2]
+        if all(t[0] == 'const' and (t[1] is None or type(t[1]) is int) for t in (lo, hi)):
+            return lo[1], hi[1]
+    return None
+
+
+def location_split(flow, meth, prefix, nparts):
+    """cut points of get_*_location: posixpath.join(PREFIX, tag[:a], [tag[a:b],] f'{tag[b:]}-{name}')"""
+    vals = set()
+    for q in flow.top(meth):
+        if q.status != 'return':
+            continue
+        v = F.strip(q.value)
+        if not (v[0] == 'call' and func_name(v[2]) == 'join' and len(v[3]) == nparts + 2 and not v[4]):
+            vals.add(None)
+            continue
+        args = v[3]
+        if args[0] != ('const', prefix):
+            vals.add(None)
+            continue
+        tag, name = ('param', 'tag'), ('param', 'name')
+        cuts = [_slice_of(a, tag) for a in args[1:-1]]
+        last = args[-1]
+        ok = last[0] == 'fstr' and len(last[1]) == 3 and last[1][1] == ('const', '-') and last[1][2] == name
+        tail = _slice_of(last[1][0], tag) if ok else None
+        if None in cuts or tail is None:
+            vals.add(None)
+            continue
+        pts = []
+        pos = None
+        good = True
+        for lo, hi in cuts + [tail]:
+            if (lo or 0) != (pos or 0):
+                good = False
+            pos = hi
+            if hi is not None:
+                pts.append(hi)
+        vals.add(tuple(pts) if good and pos is None and len(pts) == nparts else None)
+    return next(iter(vals)) if len(vals) == 1 else None
+
+
+def key_body(flow, k):
+    """the value a sort key computes from its argument ('bound', 0, 0): body of a lambda, or of a method / function given by name"""
+    if k[0] == 'lambda' and k[1] == 1:
+        return F.strip(k[2])
+    if k[0] in ('method', 'func') and k[1] in F.FUNCS:
+        node, cls, mod = F.FUNCS[k[1]]
+        params = [a.arg for a in node.args.posonlyargs + node.args.args]
+        decos = [d.id for d in node.decorator_list if isinstance(d, ast.Name)]
+        if cls is not None and 'staticmethod' not in decos:
+            params = params[1:]
+        if len(params) != 1:
+            return None
+        paths = mod.run(node, cls, args={params[0]: ('bound', 0, 0)})
+        vals = {F.strip(p.value) for p in paths if p.status == 'return'}
+        return vals.pop() if len(vals) == 1 else None
+    if k[0] == 'call' and func_name(F.strip(k[2])) == 'itemgetter' and len(k[3]) == 1:
+        return ('sub', ('bound', 0, 0), F.strip(k[3][0]))
+    if k[0] == 'call' and func_name(F.strip(k[2])) == 'attrgetter' and len(k[3]) == 1 and F.is_const(k[3][0]):
+        return ('attr', ('bound', 0, 0), k[3][0][1])
+    return None
+
+
+def _dedups(r, before):
+    """the list r cannot contain an element twice: list(dict.fromkeys(…)) / list(set(…)) / sorted(set(…)), or built by a loop
+    that appends an element only when it is not yet in a set of the elements seen (or in the list itself)"""
+    sr = F.strip(r)
+    if sr[0] == 'call' and sr[2] in (('name', 'list'), ('name', 'sorted')) and len(sr[3]) == 1 and (
+            (sr[3][0][0] == 'call' and sr[3][0][2] == ('attr', ('name', 'dict'), 'fromkeys'))
+            or (sr[3][0][0] == 'call' and sr[3][0][2] in (('name', 'set'), ('name', 'frozenset')))):
+        return True
+    uid = F.sym_uid(r)
+    if r[0] != 'list' or uid is None or r[2]:
+        return False
+    seen = 0
+    for e, chain, i, events in walk(before):
+        if not (e.kind == 'call' and e.a[0] == 'call' and e.a[2][0] == 'attr' and e.a[2][2] in ('append', 'extend', 'insert')
+                and F.sym_uid(e.a[2][1]) == uid):
+            continue
+        if e.a[2][2] != 'append' or len(e.a[3]) != 1 or not chain:
+            return False
+        x = F.strip(e.a[3][0])
+        guarded = False
+        for c, pol in F.known([(y.a, y.b) for y in events[:i] if y.kind == 'cond']):
+            if c[0] == 'cmp' and c[1] == 'in' and c[2] == x and not pol:
+                holder = c[3]
+                if holder == F.strip(r):
+                    guarded = True
+                elif any(y.kind == 'call' and y.a[0] == 'call' and y.a[2][0] == 'attr' and y.a[2][2] == 'add'
+                         and F.strip(y.a[2][1]) == holder and len(y.a[3]) == 1 and F.strip(y.a[3][0]) == x for y in events):
+                    guarded = True
+        if not guarded:
+            return False
+        seen += 1
+    return seen > 0
+
+
+def files_list_facts(flow, paths):
+    """(dedups, sorted by (size, path)) about the file list of snapshot: the list that is sorted in place before streaming"""
+    dedup = sortkey = True
+    seen = 0
+    b = ('bound', 0, 0)
+    want = ('tuple', (('attr', ('call', 0, ('attr', b, 'stat'), (), ()), 'st_size'), ('call', 0, ('name', 'str'), (b,), ())))
+    for p in paths:
+        sorts = [(i, e) for i, e in enumerate(p.events) if e.kind == 'call' and e.a[0] == 'call' and e.a[2][0] == 'attr' and e.a[2][2] == 'sort'
+                 and not e.a[3] and 'key' in dict(e.a[4]) and key_body(flow, dict(e.a[4])['key']) == want]
+        if len(sorts) != 1:
+            # not sorted that way: look for the list anyway (the first in-place sort of a list of paths)
+            sortkey = False
+            sorts = [(i, e) for i, e in enumerate(p.events) if e.kind == 'call' and e.a[0] == 'call' and e.a[2][0] == 'attr' and e.a[2][2] == 'sort'][:1]
+            if not sorts:
+                return False, False
+        seen += 1
+        i, e = sorts[0]
+        kw = dict(e.a[4])
+        if 'reverse' in kw and not F.is_const(kw['reverse'], False):
+            sortkey = False
+        dedup = dedup and _dedups(e.a[2][1], p.events[:i])
+    return (dedup and seen > 0), (sortkey and seen > 0)
+
+
+def streamed_list_dedups(flow, reps):
+    """the list of files that the streaming generator of snapshot walks cannot contain a file twice"""
+    seen = 0
+    for p in reps:
+        found = False
+        for node, paths in flow.units_below(p, every=True):
+            if not F.is_generator(node):
+                continue
+            for q in paths:
+                loops = [e.a for e in q.events if e.kind == 'loop' and e.a.kind == 'for']
+                if not loops or not any(x.kind == 'call' and x.a[0] == 'call' and x.a[2][0] == 'attr' and x.a[2][2] in ('read', 'read1', 'readinto')
+                                        for x, _c, _i, _l in walk(q.events)):
+                    continue
+                if not _dedups(unwrap_iter(loops[0].iter), p.events):
+                    return False
+                found = True
+        if not found:
+            return False
+        seen += 1
+    return seen > 0
+
+
+def newest_first(paths):
+    """restore walks the snapshots newest first: <list>.sort(key=λx. x['data']['utc_timestamp'], reverse=True)"""
+    seen = 0
+    for p in paths:
+        ok = False
+        for e in p.events:
+            if e.kind == 'call' and e.a[0] == 'call' and e.a[2][0] == 'attr' and e.a[2][2] == 'sort' and not e.a[3]:
+                kw = dict(e.a[4])
+                k = F.strip(kw.get('key', ('const', None)))
+                want = ('sub', ('sub', ('bound', 0, 0), ('const', 'data')), ('const', 'utc_timestamp'))
+                if k[0] == 'lambda' and k[1] == 1 and k[2] == want and F.is_const(kw.get('reverse', ('const', False)), True):
+                    ok = True
+        if not ok:
+            return False
+        seen += 1
+    return seen > 0
+
+
 # ------------------------------------------------------------------ repository.py: layout / restore expressions
 def repository_section():
     src = (REPO / 'replicat' / 'repository.py').read_text()
     tree = ast.parse(src)
     emit('/-! ## repository.py: stream layout, chunk→file attribution, restore plan -/')
     repo_cls = find_func(tree, 'Repository')
-    consts = {}
-    for st in repo_cls.body:
-        if isinstance(st, ast.Assign) and len(st.targets) == 1 and isinstance(st.targets[0], ast.Name):
-            try:
-                consts[st.targets[0].id] = ast.literal_eval(st.value)
-            except Exception:
-                pass
+    consts = class_consts(repo_cls, module_consts(tree))
     for nm, lean in [('CHUNK_PREFIX', 'chunkPrefix'), ('SNAPSHOT_PREFIX', 'snapshotPrefix')]:
         if isinstance(consts.get(nm), str):
             emit(f'def {lean} : String := {json.dumps(consts[nm])}')
@@ -213,58 +1772,43 @@ def repository_section():
             emit(f'opaque {lean} : String')
             notes[nm] = 'not a str literal'
 
+    # Everything below is read from the symbolic paths of the methods (pyflow): locals are resolved through their
+    # assignments, helpers are followed, conditions are compared as literals on a path — not as statement text.
+    flow = Flow(REPO / 'replicat' / 'repository.py')
+
+    def attempt(label, fn, default=None):
+        try:
+            return fn()
+        except (F.Unsupported, Untranslatable, AssertionError, KeyError, IndexError, TypeError, AttributeError, RecursionError,
+                ValueError, StopIteration) as e:
+            notes[label] = f'not recognised: {e!r}'[:300]
+            return default
+
+    snap_paths = attempt('snapshot', lambda: returns(flow.top('snapshot')), []) or []
+    rest_paths = attempt('restore', lambda: returns(flow.top('restore')), []) or []
+    snap_reps = representatives(snap_paths)
+    rest_reps = representatives(rest_paths)
+    VOCAB.clear()
+    VOCAB.update(attempt('vocabulary', lambda: infer_vocabulary(flow, snap_reps[0]) if snap_reps else dict(VOCAB_DEFAULT), dict(VOCAB_DEFAULT)) or VOCAB_DEFAULT)
+    if VOCAB != VOCAB_DEFAULT:
+        notes['vocabulary'] = 'record fields by role: ' + ', '.join(f'{k}={v}' for k, v in sorted(VOCAB.items()) if VOCAB_DEFAULT[k] != v)
+
     # --- _chunk_done
-    cd = find_func(tree, 'Repository', 'snapshot', '_chunk_done')
-    fp('repository.snapshot._chunk_done', cd)
-    names = {
-        'file.stream_start': ('fs', 'nat'), 'file.stream_end': ('fe', 'nat'),
-        'chunk.stream_start': ('cs', 'nat'), 'chunk.stream_end': ('ce', 'nat'),
-    }
-    got = {}
-    try:
-        for node in ast.walk(cd):
-            if isinstance(node, ast.Assign) and isinstance(node.targets[0], ast.Name):
-                t = node.targets[0].id
-                if t == 'bisect_point':
-                    # bisect.bisect_left(state.files, (chunk.stream_end + 1,))
-                    call = node.value
-                    assert unparse(call.func) == 'bisect.bisect_left' and unparse(call.args[0]) == 'state.files'
-                    key = call.args[1]
-                    assert isinstance(key, ast.Tuple) and len(key.elts) == 1
-                    got['bisectKey'] = translate(unparse(key.elts[0]), names, 'nat')
-                elif t == 'part_start':
-                    # max(file.stream_start - chunk.stream_start, 0)  (Python ints, may be negative → max with 0)
-                    v = node.value
-                    assert isinstance(v, ast.Call) and unparse(v.func) == 'max' and unparse(v.args[1]) == '0'
-                    got['partStart'] = translate(unparse(v.args[0]), names, 'nat', nat_sub=True)  # Nat truncation == max(·,0)
-                elif t == 'part_end':
-                    # min(file.stream_end, chunk.stream_end) - chunk.stream_start
-                    v = node.value
-                    assert isinstance(v, ast.BinOp) and isinstance(v.op, ast.Sub)
-                    got['partEndAbs'] = translate(unparse(v.left), names, 'nat')
-                    got['partEndBase'] = translate(unparse(v.right), names, 'nat')
-            if isinstance(node, ast.If):
-                t = unparse(node.test)
-                if t.startswith('file.stream_end') and isinstance(node.body[0], ast.Break):
-                    got['stopScan'] = translate(t, names, 'bool')
-                if 'file.digest is not None' in t:
-                    # chunk.stream_end >= file.stream_end and file.digest is not None
-                    assert isinstance(node.test, ast.BoolOp) and isinstance(node.test.op, ast.And) and len(node.test.values) == 2
-                    assert unparse(node.test.values[1]) == 'file.digest is not None'
-                    got['fileComplete'] = translate(unparse(node.test.values[0]), names, 'bool')
-            if isinstance(node, ast.For) and unparse(node.iter).startswith('range(bisect_point'):
-                got['rangeExpr'] = unparse(node.iter)
-        assert got.get('rangeExpr') == 'range(bisect_point - 1, -1, -1)', got.get('rangeExpr')
-        need = {'bisectKey', 'partStart', 'partEndAbs', 'partEndBase', 'stopScan', 'fileComplete'}
-        assert need <= set(got), need - set(got)
+    fp('repository.snapshot._chunk_done', find_func(tree, 'Repository', 'snapshot', '_chunk_done'))
+
+    def chunk_done():
+        gots = [chunk_done_shape(flow, p) for p in snap_reps]
+        assert gots and all(g == gots[0] for g in gots), 'differs between paths'
+        return gots[0]
+    got = attempt('chunk_done', chunk_done)
+    if got is not None:
         emit('def chunkDoneRecognised : Bool := true')
         emit(f'def bisectKey (cs ce : Nat) : Nat := {got["bisectKey"]}')
         emit(f'def stopScan (fs fe cs ce : Nat) : Bool := {got["stopScan"]}')
         emit(f'def partStart (fs fe cs ce : Nat) : Nat := {got["partStart"]}')
         emit(f'def partEnd (fs fe cs ce : Nat) : Nat := {got["partEndAbs"]} - {got["partEndBase"]}')
         emit(f'def fileComplete (fs fe cs ce : Nat) : Bool := {got["fileComplete"]}')
-    except (AssertionError, Untranslatable, AttributeError, IndexError) as e:
-        notes['chunk_done'] = f'not recognised: {e!r}'
+    else:
         emit('def chunkDoneRecognised : Bool := false')
         emit('opaque bisectKey : Nat → Nat → Nat')
         for nm in ('stopScan', 'fileComplete'):
@@ -273,158 +1817,107 @@ def repository_section():
             emit(f'opaque {nm} : Nat → Nat → Nat → Nat → Nat')
 
     # --- _stream_files: padding expression and read-piece size
-    sf = find_func(tree, 'Repository', 'snapshot', '_stream_files')
-    fp('repository.snapshot._stream_files', sf)
-    try:
-        piece = ast.literal_eval(sf.args.defaults[0])
-        assert isinstance(piece, int)
-        emit(f'def pieceSize : Nat := {piece}')
-        pad = None
-        for node in ast.walk(sf):
-            if isinstance(node, ast.Assign) and isinstance(node.targets[0], ast.Name) and node.targets[0].id == 'padding_length':
-                pad = unparse(node.value)
-        # -(prev_file.stream_end - prev_file.stream_start) % alignment
-        assert pad == '-(prev_file.stream_end - prev_file.stream_start) % alignment', pad
+    fp('repository.snapshot._stream_files', find_func(tree, 'Repository', 'snapshot', '_stream_files'))
+
+    def piece():
+        vals = {piece_size(flow, p) for p in snap_reps}
+        assert len(vals) == 1 and None not in vals, f'piece sizes {vals}'
+        return vals.pop()
+    pc = attempt('stream_files.piece', piece)
+    if pc is not None:
+        emit(f'def pieceSize : Nat := {pc}')
+    pad_ok = attempt('stream_files', lambda: bool(snap_reps) and all(padding_shape(flow, p) for p in snap_reps), False)
+    if pad_ok:
         emit('def paddingRecognised : Bool := true')
         emit('/-- `-(len) % alignment` with Python semantics (result in [0, alignment)). -/')
         emit('def padding (len alignment : Nat) : Nat := (alignment - len % alignment) % alignment')
-    except (AssertionError, Exception) as e:
-        notes['stream_files'] = f'not recognised: {e!r}'
+    else:
+        notes.setdefault('stream_files', 'padding between files not recognised')
         emit('def paddingRecognised : Bool := false')
-        if 'def pieceSize' not in '\n'.join(lines):
+        if pc is None:
             emit('opaque pieceSize : Nat')
         emit('opaque padding : Nat → Nat → Nat')
+    if pad_ok and pc is None:
+        emit('opaque pieceSize : Nat')
 
     # --- sort key of files
-    snap = find_func(tree, 'Repository', 'snapshot')
-    fp('repository.snapshot', snap)
-    sortkey = None
-    for node in ast.walk(snap):
-        if isinstance(node, ast.Call) and unparse(node.func) == 'files.sort':
-            sortkey = unparse(node.keywords[0].value)
-    emit(f'def filesSortedBySizeThenPath : Bool := {"true" if sortkey == "lambda file: (file.stat().st_size, str(file))" else "false"}')
+    fp('repository.snapshot', find_func(tree, 'Repository', 'snapshot'))
+    dedup, sortkey = attempt('files_list', lambda: files_list_facts(flow, snap_paths), (False, False))
+    emit(f'def filesSortedBySizeThenPath : Bool := {"true" if sortkey else "false"}')
     # queue size / rate chunk
-    qfactor = None
-    rate_div = None
-    for node in ast.walk(snap):
-        if isinstance(node, ast.Call) and unparse(node.func) == 'queue.Queue':
-            m = re.fullmatch(r'self\._concurrent \* (\d+)', unparse(node.keywords[0].value))
-            qfactor = int(m.group(1)) if m else None
-        if isinstance(node, ast.Assign) and unparse(node.targets[0]) == 'upload_chunk_size' and 'rate_limit' in unparse(node.value):
-            m = re.fullmatch(r'max\(rate_limit // \(self\._concurrent \* (\d+)\), 1\)', unparse(node.value))
-            rate_div = int(m.group(1)) if m else None
+    qfactor = attempt('queueFactor', lambda: queue_factor(snap_paths))
     emit(f'def queueFactor : Nat := {qfactor}' if qfactor is not None else 'opaque queueFactor : Nat')
     # every command must use the same divisor
-    divs = set(re.findall(r'max\(rate_limit // \(self\._concurrent \* (\d+)\), 1\)', src))
-    if rate_div is not None and divs == {str(rate_div)}:
+
+    def divisor():
+        divs = rate_divisors(flow)
+        used = {k: v for k, v in divs.items() if v}
+        assert {'snapshot', 'restore', 'upload_objects', 'download_objects'} <= set(used), f'commands with a piece size: {sorted(used)}'
+        ns = set()
+        for k, v in used.items():
+            assert v <= {x for x in v if type(x) is int} | {'default'} and any(type(x) is int for x in v), f'{k}: {v}'
+            ns |= {x for x in v if type(x) is int}
+        assert len(ns) == 1, f'divisors differ: {ns}'
+        return ns.pop()
+    rate_div = attempt('rateDivisor', divisor)
+    if rate_div is not None:
         emit(f'def rateDivisor : Nat := {rate_div}')
     else:
-        notes['rateDivisor'] = f'divisors differ: {divs}'
         emit('opaque rateDivisor : Nat')
 
     # --- _write_file_part: truncate(max(file_end, offset + len(data)))
-    wf = find_func(tree, 'Repository', '_write_file_part')
-    fp('repository._write_file_part', wf)
-    trunc = None
-    for node in ast.walk(wf):
-        if isinstance(node, ast.Call) and unparse(node.func) == 'file.truncate':
-            trunc = unparse(node.args[0])
-    try:
-        t = translate(trunc.replace('len(data)', 'dlen'), {'file_end': ('fileEnd', 'nat'), 'offset': ('off', 'nat'), 'dlen': ('dlen', 'nat')}, 'nat')
-        emit(f'def writeTruncate (fileEnd off dlen : Nat) : Nat := {t}')
-    except Exception as e:
-        notes['write_file_part'] = f'not recognised: {e!r}'
+    fp('repository._write_file_part', find_func(tree, 'Repository', '_write_file_part'))
+    wt = attempt('write_file_part', lambda: write_truncate(flow))
+    if wt is not None:
+        emit(f'def writeTruncate (fileEnd off dlen : Nat) : Nat := {wt}')
+    else:
         emit('opaque writeTruncate : Nat → Nat → Nat → Nat')
 
     # --- restore: ordering key, location slicing
-    rs = find_func(tree, 'Repository', 'restore')
-    fp('repository.restore', rs)
-    ordered = None
-    snapsort = None
-    for node in ast.walk(rs):
-        if isinstance(node, ast.Assign) and unparse(node.targets[0]) == 'ordered_chunks':
-            ordered = unparse(node.value)
-        if isinstance(node, ast.Call) and unparse(node.func) == 'snapshots.sort':
-            snapsort = ', '.join(unparse(k) for k in node.keywords)
-    emit(f'def restoreOrdersByCounter : Bool := {"true" if ordered == "sorted(file_data[" + repr("chunks") + "], key=lambda x: x[" + repr("counter") + "])" else "false"}')
-    emit(f'def restoreNewestFirst : Bool := {"true" if snapsort == "key=lambda x: x[" + repr("data") + "][" + repr("utc_timestamp") + "], reverse=True" else "false"}')
-    lm = None
-    for node in ast.walk(rs):
-        if isinstance(node, ast.Assign) and unparse(node.targets[0]) == 'loader':
-            lm = unparse(node.value)
-    m = re.search(r'max_workers=self\._concurrent \* (\d+)', lm or '')
-    emit(f'def loaderFactor : Nat := {m.group(1)}' if m else 'opaque loaderFactor : Nat')
+    fp('repository.restore', find_func(tree, 'Repository', 'restore'))
+    plans = attempt('restore_plan', lambda: [restore_plan(p) for p in rest_paths], []) or []
+    ordered = bool(plans) and all(pl is not None and pl['ordered'] for pl in plans)
+    emit(f'def restoreOrdersByCounter : Bool := {"true" if ordered else "false"}')
+    emit(f'def restoreNewestFirst : Bool := {"true" if attempt("restoreNewestFirst", lambda: newest_first(rest_paths), False) else "false"}')
+    lf = attempt('loaderFactor', lambda: loader_factor(rest_paths))
+    emit(f'def loaderFactor : Nat := {lf}' if lf is not None else 'opaque loaderFactor : Nat')
 
     # --- location builders
-    gcl = find_func(tree, 'Repository', 'get_chunk_location')
-    gsl = find_func(tree, 'Repository', 'get_snapshot_location')
-    fp('repository.get_chunk_location', gcl)
-    fp('repository.get_snapshot_location', gsl)
-    fp('repository.parse_chunk_location', find_func(tree, 'Repository', 'parse_chunk_location'))
-    fp('repository.parse_snapshot_location', find_func(tree, 'Repository', 'parse_snapshot_location'))
-    cl = unparse(gcl.body[-1].value) if isinstance(gcl.body[-1], ast.Return) else ''
-    sl = unparse(gsl.body[-1].value) if isinstance(gsl.body[-1], ast.Return) else ''
-    m = re.fullmatch(r"posixpath\.join\(self\.CHUNK_PREFIX, tag\[:(\d+)\], tag\[(\d+):(\d+)\], f'\{tag\[(\d+):\]\}-\{name\}'\)", cl)
-    if m and m.group(1) == m.group(2) and m.group(3) == m.group(4):
-        emit(f'def chunkLocSplit : Nat × Nat := ({m.group(1)}, {m.group(3)})')
+    for nm in ('get_chunk_location', 'get_snapshot_location', 'parse_chunk_location', 'parse_snapshot_location'):
+        fp(f'repository.{nm}', find_func(tree, 'Repository', nm))
+    cs = attempt('get_chunk_location', lambda: location_split(flow, 'get_chunk_location', consts.get('CHUNK_PREFIX'), 2))
+    if cs is not None:
+        emit(f'def chunkLocSplit : Nat × Nat := ({cs[0]}, {cs[1]})')
     else:
-        notes['get_chunk_location'] = cl
+        notes.setdefault('get_chunk_location', 'not posixpath.join(prefix, tag[:a], tag[a:b], f"{tag[b:]}-{name}")')
         emit('opaque chunkLocSplit : Nat × Nat')
-    m = re.fullmatch(r"posixpath\.join\(self\.SNAPSHOT_PREFIX, tag\[:(\d+)\], f'\{tag\[(\d+):\]\}-\{name\}'\)", sl)
-    if m and m.group(1) == m.group(2):
-        emit(f'def snapLocSplit : Nat := {m.group(1)}')
+    ss = attempt('get_snapshot_location', lambda: location_split(flow, 'get_snapshot_location', consts.get('SNAPSHOT_PREFIX'), 1))
+    if ss is not None:
+        emit(f'def snapLocSplit : Nat := {ss[0]}')
     else:
-        notes['get_snapshot_location'] = sl
+        notes.setdefault('get_snapshot_location', 'not posixpath.join(prefix, tag[:a], f"{tag[a:]}-{name}")')
         emit('opaque snapLocSplit : Nat')
     # --- shapes of the defect fixes (each a Bool the theorems discharge by `decide`)
-    frp = find_func(tree, 'Repository', '_flatten_resolve_paths')
-    fp('repository._flatten_resolve_paths', frp)
-    ret = [n for n in ast.walk(frp) if isinstance(n, ast.Return)]
-    dedup = bool(ret) and unparse(ret[-1].value).startswith('list(dict.fromkeys(')
+    fp('repository._flatten_resolve_paths', find_func(tree, 'Repository', '_flatten_resolve_paths'))
+    if not dedup:
+        # however the list is put in order: what matters is the list that is streamed
+        dedup = attempt('flattenDedups', lambda: streamed_list_dedups(flow, snap_reps), False)
     emit(f'def flattenDedups : Bool := {"true" if dedup else "false"}')
-    dc = find_func(tree, 'Repository', 'restore', '_download_chunk')
-    fp('repository.restore._download_chunk', dc)
-    body_txt = [unparse(n) for n in ast.walk(dc) if isinstance(n, (ast.Expr, ast.Assign, ast.If, ast.With))]
-    trunc_ok = False
-    under_lock = False
-    if dc is not None:
-        for n in ast.walk(dc):
-            if isinstance(n, ast.If) and unparse(n.test) in ('finished', 'not digests'):
-                stmts = [unparse(x) for x in n.body]
-                ti = [i for i, x in enumerate(stmts) if x == 'os.truncate(restore_path, files_sizes[file_path])']
-                mi = [i for i, x in enumerate(stmts) if x == 'self.restore_metadata(restore_path, metadata)']
-                trunc_ok = bool(ti and mi and ti[0] < mi[0])
-                under_lock = unparse(n.test) == 'finished'
-            if isinstance(n, ast.With) and unparse(n.items[0].context_expr) == 'glock':
-                stmts = [unparse(x) for x in n.body]
-                if 'digests.remove(digest)' in stmts and 'finished = not digests' in stmts:
-                    under_lock = under_lock and stmts.index('digests.remove(digest)') < stmts.index('finished = not digests')
-    sizes_set = 'files_sizes[file_path] = chunk_position' in [unparse(n) for n in ast.walk(rs) if isinstance(n, ast.Assign)]
-    emit(f'def restoreSetsFinalLength : Bool := {"true" if (trunc_ok and sizes_set) else "false"}')
+    fp('repository.restore._download_chunk', find_func(tree, 'Repository', 'restore', '_download_chunk'))
+    by_id = {id(p): pl for p, pl in zip(rest_paths, plans)}
+    sizes_ok = attempt('restoreSetsFinalLength', lambda: bool(rest_reps) and all(
+        restore_final_length(flow, p, by_id.get(id(p))) for p in rest_reps), False)
+    sizes_ok = sizes_ok and bool(plans) and all(pl is not None and pl.get('sizes') not in (None, 'unset') for pl in plans)
+    emit(f'def restoreSetsFinalLength : Bool := {"true" if sizes_ok else "false"}')
+    under_lock = attempt('finaliseDecidedUnderLock', lambda: bool(rest_reps) and all(finalise_under_lock(flow, p) for p in rest_reps), False)
     emit(f'def finaliseDecidedUnderLock : Bool := {"true" if under_lock else "false"}')
-    rec_chunkless = False
-    for n in ast.walk(snap):
-        if isinstance(n, ast.For) and unparse(n.iter) == 'state.files':
-            t = unparse(n)
-            rec_chunkless = 'if file.path not in snapshot_files' in t and "'chunks': []" in t and "'digest': file.digest" in t and "'metadata': file.metadata" in t
+    rec_chunkless = attempt('recordsChunklessFiles', lambda: bool(snap_paths) and all(records_chunkless(p) for p in snap_paths), False)
     emit(f'def recordsChunklessFiles : Bool := {"true" if rec_chunkless else "false"}')
-    res_chunkless = False
-    for n in ast.walk(rs):
-        if isinstance(n, ast.For) and unparse(n.iter) == 'chunkless_files':
-            stmts = [unparse(x) for x in n.body]
-            res_chunkless = ("self._write_file_part(restore_path, b'', 0)" in stmts and 'os.truncate(restore_path, 0)' in stmts
-                             and 'self.restore_metadata(restore_path, metadata)' in stmts)
-    marks = [unparse(n) for n in ast.walk(rs) if isinstance(n, ast.If)]
-    res_chunkless = res_chunkless and any(m.startswith('if not ordered_chunks:\n    chunkless_files.append(file_path)') for m in marks)
+    res_chunkless = attempt('restoresChunklessFiles', lambda: bool(rest_paths) and all(
+        restore_chunkless(p, pl) for p, pl in zip(rest_paths, plans)), False)
     emit(f'def restoresChunklessFiles : Bool := {"true" if res_chunkless else "false"}')
     # --- cache verification (C18)
-    dst = find_func(tree, 'Repository', '_download_snapshot_threadsafe')
-    cache_ok = False
-    if dst is not None:
-        for n in ast.walk(dst):
-            if isinstance(n, ast.Try) and n.orelse:
-                t = [unparse(x) for x in n.orelse]
-                cache_ok = any(x.startswith('if self.props.hash_digest(contents) != expected_digest:') and 'contents = None' in x for x in t)
+    cache_ok = attempt('cacheVerified', lambda: cache_verified(flow), False)
     emit(f'def cacheVerified : Bool := {"true" if cache_ok else "false"}')
     for nm in ('_download_snapshot_threadsafe', '_load_snapshots', 'delete_snapshots', 'clean', '_decrypt_snapshot_body',
                '_encrypt_snapshot_body', '_chunk_digest_to_location_parts', '_snapshot_digest_to_location_parts', 'init',
@@ -446,15 +1939,9 @@ def ratelimit_section():
     fp('utils.type_hint', find_func(tree, 'type_hint'))
     fp('utils.type_reverse', find_func(tree, 'type_reverse'))
     fp('utils.guess_type', find_func(tree, 'guess_type'))
-    vals = {}
-    for st in rl.body:
-        if isinstance(st, ast.Assign) and isinstance(st.targets[0], ast.Name):
-            try:
-                vals[st.targets[0].id] = ast.literal_eval(st.value)
-            except Exception:
-                pass
+    vals = class_consts(rl, module_consts(tree))
     for nm, lean in [('PAUSE_THRESHOLD_SECONDS', 'pauseThreshold'), ('PAUSE_LIMIT', 'pauseLimit')]:
-        if isinstance(vals.get(nm), (int, float)):
+        if isinstance(vals.get(nm), (int, float)) and not isinstance(vals.get(nm), bool):
             emit(f'def {lean} : Rat := {rat(vals[nm])}')
         else:
             emit(f'opaque {lean} : Rat')
@@ -482,23 +1969,73 @@ def ratelimit_section():
 
 
 # ------------------------------------------------------------------ backends: retry policies, S3 quoting
+def retry_policy(tree, cls_name):
+    """the backoff.on_exception(…) policy that decorates the methods of a backend class, however it is spelled:
+    a module-level name, functools.partial(backoff.on_exception, …), a partial applied further, or the call itself.
+    Returns (positional args as source text, keywords as source text) when all decorated methods agree, else (None, None)."""
+    assigns = {}
+    for st in tree.body:
+        if isinstance(st, ast.Assign) and len(st.targets) == 1 and isinstance(st.targets[0], ast.Name):
+            assigns[st.targets[0].id] = st.value
+    consts = module_consts(tree)
+
+    def text(v, depth=0):
+        if isinstance(v, ast.Name) and v.id in consts and not isinstance(consts[v.id], str):
+            return repr(consts[v.id])
+        if isinstance(v, ast.Name) and v.id in assigns and isinstance(assigns[v.id], (ast.Name, ast.Attribute)) and depth < 4:
+            return text(assigns[v.id], depth + 1)          # an alias: RETRIED = OSError
+        return unparse(v)
+
+    funcs = {st.name: st for st in tree.body if isinstance(st, ast.FunctionDef)}
+
+    def resolve(e, depth=0):
+        if depth > 6:
+            return None
+        if isinstance(e, ast.Name):
+            if e.id in assigns:
+                return resolve(assigns[e.id], depth + 1)
+            if e.id in funcs:
+                # a decorator function that applies the policy to the method it is given
+                for n in ast.walk(funcs[e.id]):
+                    if isinstance(n, ast.Call):
+                        r = resolve(n, depth + 1)
+                        if r is not None:
+                            return r
+            return None
+        if isinstance(e, ast.Call):
+            fn = unparse(e.func)
+            args, kw = [text(a) for a in e.args], {k.arg: text(k.value) for k in e.keywords if k.arg}
+            if fn.split('.')[-1] == 'on_exception':
+                return args, kw
+            if fn.split('.')[-1] == 'partial' and e.args and unparse(e.args[0]).split('.')[-1] == 'on_exception':
+                return args[1:], kw
+            base = resolve(e.func, depth + 1)
+            if base is not None:
+                return base[0] + args, dict(base[1], **kw)
+        return None
+    cls = find_func(tree, cls_name)
+    found = []
+    for st in (cls.body if cls is not None else []):
+        if isinstance(st, (ast.FunctionDef, ast.AsyncFunctionDef)):
+            for d in st.decorator_list:
+                r = resolve(d)
+                if r is not None:
+                    found.append(r)
+    keyset = {(tuple(a[:2]), kw.get('max_tries'), kw.get('giveup')) for a, kw in found}
+    if len(keyset) != 1:
+        return None, None
+    return found[0]
+
+
 def backends_section():
     emit('/-! ## backends: retry policies, S3 signing inputs, B2 listing -/')
-    def deco_kwargs(src, varname):
-        tree = ast.parse(src)
-        for node in ast.walk(tree):
-            if isinstance(node, ast.Assign) and isinstance(node.targets[0], ast.Name) and node.targets[0].id == varname:
-                call = node.value
-                kw = {k.arg: unparse(k.value) for k in call.keywords}
-                args = [unparse(a) for a in call.args]
-                return args, kw
-        return None, None
     local = (REPO / 'replicat' / 'backends' / 'local.py').read_text()
     s3c = (REPO / 'replicat' / 'backends' / 's3c.py').read_text()
     b2 = (REPO / 'replicat' / 'backends' / 'b2.py').read_text()
     for nm, src in (('local', local), ('s3c', s3c), ('b2', b2)):
         fingerprints[f'backends/{nm}.py'] = hashlib.sha256(ast.dump(ast.parse(src)).encode()).hexdigest()[:16]
-    a, kw = deco_kwargs(local, 'backoff_on_oserror')
+    a, kw = retry_policy(ast.parse(local), 'Local')
+
     def tries(kw):
         try:
             v = int(kw.get('max_tries'))
@@ -507,25 +2044,32 @@ def backends_section():
             return 'none'
     emit(f'def retryLocalMaxTries : Option Nat := {tries(kw or {})}')
     emit(f'def retryLocalCatchesOSError : Bool := {"true" if a and a[1:2] == ["OSError"] else "false"}')
-    a, kw = deco_kwargs(s3c, 'backoff_on_httperror')
+    s3tree = ast.parse(s3c)
+    a, kw = retry_policy(s3tree, 'S3Compatible')
     emit(f'def retryS3MaxTries : Option Nat := {tries(kw or {})}')
-    emit(f'def retryS3GiveupOn403 : Bool := {"true" if (kw or {}).get("giveup") == "_check_403" else "false"}')
-    a, kw = deco_kwargs(b2, '_backoff_decorator')
+    # give up on 403: the predicate is a function of the module that tests for the FORBIDDEN status
+    giveup = find_func(s3tree, (kw or {}).get('giveup') or '') if (kw or {}).get('giveup', '').isidentifier() else None
+    gtxt = unparse(giveup) if giveup is not None else ''
+    emit(f'def retryS3GiveupOn403 : Bool := {"true" if ("FORBIDDEN" in gtxt or "403" in gtxt) else "false"}')
+    a, kw = retry_policy(ast.parse(b2), 'B2')
     emit(f'def retryB2MaxTries : Option Nat := {tries(kw or {})}')
-    # S3 quoting
-    tree = ast.parse(s3c)
-    pr = find_func(tree, 'S3Compatible', '_prepare_request')
+    # S3 quoting: the quote / urlencode calls of the class that builds the request (wherever in the class they sit)
+    tree = s3tree
+    pr = find_func(tree, 'S3Compatible')
     quote_call = urlencode_call = None
     for node in ast.walk(pr):
-        if isinstance(node, ast.Call) and unparse(node.func) == 'quote':
+        if isinstance(node, ast.Call) and unparse(node.func).split('.')[-1] == 'quote' and quote_call is None:
             quote_call = node
-        if isinstance(node, ast.Call) and unparse(node.func) == 'urlencode':
+        if isinstance(node, ast.Call) and unparse(node.func).split('.')[-1] == 'urlencode':
             urlencode_call = node
+    s3consts = module_consts(tree)
     qsafe = '/'
     if quote_call is not None:
         for k in quote_call.keywords:
             if k.arg == 'safe':
-                qsafe = ast.literal_eval(k.value)
+                qsafe = const_eval(k.value, s3consts)
+        if len(quote_call.args) > 1:
+            qsafe = const_eval(quote_call.args[1], s3consts)
     emit(f'def s3PathSafe : String := {json.dumps(qsafe)}')
     via = 'quote_plus'
     usafe = ''
@@ -533,17 +2077,25 @@ def backends_section():
     if urlencode_call is not None:
         for k in urlencode_call.keywords:
             if k.arg == 'quote_via':
-                via = unparse(k.value)
+                via = unparse(k.value).split('.')[-1]
             if k.arg == 'safe':
-                usafe = ast.literal_eval(k.value)
-        sorted_q = unparse(urlencode_call.args[0]).startswith('sorted(')
+                usafe = const_eval(k.value, s3consts)
+        arg0 = urlencode_call.args[0]
+        sorted_q = unparse(arg0).startswith('sorted(')
+        if isinstance(arg0, ast.Name):
+            # a local holding the sorted pairs
+            for node in ast.walk(pr):
+                if isinstance(node, ast.Assign) and any(isinstance(t, ast.Name) and t.id == arg0.id for t in node.targets):
+                    sorted_q = unparse(node.value).startswith('sorted(')
     emit(f'def s3QueryQuoteVia : String := {json.dumps(via)}')
     emit(f'def s3QuerySafe : String := {json.dumps(usafe)}')
     emit(f'def s3QuerySorted : Bool := {"true" if sorted_q else "false"}')
     hdrs = None
     for node in ast.walk(pr):
-        if isinstance(node, ast.Assign) and unparse(node.targets[0]) == 'canonical_headers' and isinstance(node.value, ast.Dict):
-            hdrs = [ast.literal_eval(k) for k in node.value.keys]
+        # the dict of headers that are signed: the display with a 'host' entry
+        if isinstance(node, ast.Dict) and all(isinstance(k, ast.Constant) and isinstance(k.value, str) for k in node.keys) \
+                and 'host' in [k.value for k in node.keys] and hdrs is None:
+            hdrs = [k.value for k in node.keys]
     emit('def s3SignedHeaders : List String := ' + ('[' + ', '.join(json.dumps(h) for h in hdrs) + ']' if hdrs else '[]'))
     m = re.search(r"'maxFileCount': ([\d_]+)", b2)
     emit(f'def b2MaxFileCount : Nat := {int(m.group(1).replace("_", ""))}' if m else 'opaque b2MaxFileCount : Nat')
